@@ -1,7 +1,22 @@
-(* Proofs about the concurrent subscription model (Model/ConcSub.v):
-   Notify well-formedness, no lost wake-up (C06) and its refutation for the
-   unrestricted system, release on deletion (C12), the empty rule (C15) and
-   termination of internal activity. *)
+(* Proofs about the concurrent subscription model (Model/ConcSub.v), which
+   describes the code before (ho = false) and after (ho = true) the commit
+   "fix: pass the wake-up on when a woken consumer goes away before its pull is
+   queued".
+
+   - Notify and actor well-formedness (notify_wf, actor_wf): both versions.
+   - No lost wake-up (C06):
+       ho = true : C06_no_lost_wakeup_exact / C06_no_lost_wakeup /
+                   C06_lost_wakeup_unreachable / C06_quiescent hold in EVERY
+                   reachable state (no drop is excluded);
+                   C06_fixed_cancel_owing / C06_fixed_timeout_owing replay the
+                   schedules that used to lose the wake-up.
+       ho = false: the same statements over [reachableR] (reachability without
+                   the drops of an owing consumer): the ..._old theorems; and
+                   the refutations C06_refuted_cancel_owing /
+                   C06_refuted_timeout_owing for the unrestricted system.
+   - Release on deletion (C12), the empty rule (C15), termination of internal
+     activity: both versions.  C12_no_hang: in the repaired code every consumer
+     that arrives after the deletion is worth one more round (see there). *)
 From Coq Require Import List NArith Arith Bool Lia.
 Import ListNotations.
 From Deltio Require Import Model.ConcSub.
@@ -142,94 +157,94 @@ Qed.
 (* ------------------------------------------------------------------ *)
 (* Inversion principle for [step]: every case in normal form           *)
 
-Inductive sspec (K : nat) (s : state) : label -> state -> Prop :=
+Inductive sspec (ho : bool) (K : nat) (s : state) : label -> state -> Prop :=
 | sp_turn_del_pull c m rest :
     exited s = false -> mailbox s = RPull c m :: rest -> deleted s = true ->
-    sspec K s LTurn (deliver c (RMsgs 0) (set_mailbox rest s))
+    sspec ho K s LTurn (deliver c (RMsgs 0) (set_mailbox rest s))
 | sp_turn_del_other r rest :
     exited s = false -> mailbox s = r :: rest -> deleted s = true -> is_pull r = false ->
-    sspec K s LTurn (set_mailbox rest s)
+    sspec ho K s LTurn (set_mailbox rest s)
 | sp_turn_post n rest :
     exited s = false -> mailbox s = RPost n :: rest -> deleted s = false ->
-    sspec K s LTurn (notify_one (set_backlog (backlog s + n) (set_mailbox rest s)))
+    sspec ho K s LTurn (notify_one (set_backlog (backlog s + n) (set_mailbox rest s)))
 | sp_turn_pull c m rest :
     exited s = false -> mailbox s = RPull c m :: rest -> deleted s = false ->
-    sspec K s LTurn
+    sspec ho K s LTurn
       (let k := pull_count (backlog s) m in
        let s1 := deliver c (RMsgs k)
                    (set_leased (leased s + k) (set_backlog (backlog s - k) (set_mailbox rest s))) in
        if Nat.ltb 0 (backlog s - k) then notify_one s1 else s1)
 | sp_turn_nack j rest :
     exited s = false -> mailbox s = RNack j :: rest -> deleted s = false ->
-    sspec K s LTurn (requeue j (set_mailbox rest s))
+    sspec ho K s LTurn (requeue j (set_mailbox rest s))
 | sp_turn_ack j rest :
     exited s = false -> mailbox s = RAck j :: rest -> deleted s = false ->
-    sspec K s LTurn (set_leased (leased s - Nat.min j (leased s)) (set_mailbox rest s))
+    sspec ho K s LTurn (set_leased (leased s - Nat.min j (leased s)) (set_mailbox rest s))
 | sp_turn_delete rest :
     exited s = false -> mailbox s = RDelete :: rest -> deleted s = false ->
-    sspec K s LTurn
+    sspec ho K s LTurn
       (notify_waiters (set_deleted true (set_leased 0 (set_backlog 0 (set_mailbox rest s)))))
 | sp_exit :
     deleted s = true -> exited s = false ->
-    sspec K s LExit (set_mailbox [] (set_exited true (fold_left close_req (mailbox s) s)))
+    sspec ho K s LExit (set_mailbox [] (set_exited true (fold_left close_req (mailbox s) s)))
 | sp_u0 c cs o :
     get s c = Some cs -> cphase cs = PU0 o ->
-    sspec K s (LCons c) (setc c (with_phase (PU1 (calls s) o)) s)
+    sspec ho K s (LCons c) (setc c (with_phase (PU1 (calls s) o)) s)
 | sp_u1_closed c cs snap o :
     get s c = Some cs -> cphase cs = PU1 snap o -> exited s = true ->
-    sspec K s (LCons c) (setc c (with_phase (PDone (closed_outcome (ckind cs)))) s)
+    sspec ho K s (LCons c) (leave ho (cphase cs) c (with_phase (PDone (closed_outcome (ckind cs)))) s)
 | sp_u1_send c cs snap o :
     get s c = Some cs -> cphase cs = PU1 snap o -> exited s = false -> length (mailbox s) < K ->
-    sspec K s (LCons c)
+    sspec ho K s (LCons c)
       (set_mailbox (mailbox s ++ [RPull c (cmax cs)]) (setc c (with_phase (PU2 snap None)) s))
 | sp_u2_closed c cs snap :
     get s c = Some cs -> cphase cs = PU2 snap (Some RClosed) ->
-    sspec K s (LCons c) (setc c (with_phase (PDone (closed_outcome (ckind cs)))) s)
+    sspec ho K s (LCons c) (setc c (with_phase (PDone (closed_outcome (ckind cs)))) s)
 | sp_u2_empty c cs snap :
     get s c = Some cs -> cphase cs = PU2 snap (Some (RMsgs 0)) ->
-    sspec K s (LCons c) (setc c (with_phase (PU3 snap)) s)
+    sspec ho K s (LCons c) (setc c (with_phase (PU3 snap)) s)
 | sp_u2_msgs_unary c cs snap k :
     get s c = Some cs -> cphase cs = PU2 snap (Some (RMsgs (S k))) -> ckind cs = Unary ->
-    sspec K s (LCons c)
+    sspec ho K s (LCons c)
       (setc c (fun x => add_got (S k) (with_phase (PDone (OMessages (S k))) x)) s)
 | sp_u2_msgs_stream c cs snap k :
     get s c = Some cs -> cphase cs = PU2 snap (Some (RMsgs (S k))) -> ckind cs = Stream ->
-    sspec K s (LCons c) (setc c (fun x => add_got (S k) (with_phase (PU3 snap) x)) s)
+    sspec ho K s (LCons c) (setc c (fun x => add_got (S k) (with_phase (PU3 snap) x)) s)
 | sp_u3_permit c cs snap :
     get s c = Some cs -> cphase cs = PU3 snap -> permit s = true ->
-    sspec K s (LCons c) (set_permit false (setc c (with_phase (PU0 true)) s))
+    sspec ho K s (LCons c) (set_permit false (setc c (with_phase (PU0 true)) s))
 | sp_u3_calls c cs snap :
     get s c = Some cs -> cphase cs = PU3 snap -> permit s = false -> snap <> calls s ->
-    sspec K s (LCons c) (setc c (with_phase (PU0 true)) s)
+    sspec ho K s (LCons c) (setc c (with_phase (PU0 true)) s)
 | sp_u3_park c cs snap :
     get s c = Some cs -> cphase cs = PU3 snap -> permit s = false -> snap = calls s ->
-    sspec K s (LCons c)
+    sspec ho K s (LCons c)
       (set_waiters (waiters s ++ [c]) (setc c (with_phase (PParked NNone)) s))
 | sp_woken c cs n :
     get s c = Some cs -> cphase cs = PParked n -> n <> NNone ->
-    sspec K s (LCons c) (setc c (with_phase (PU0 true)) s)
+    sspec ho K s (LCons c) (setc c (with_phase (PU0 true)) s)
 | sp_delexit c cs :
-    deleted s = true -> get s c = Some cs -> alive (cphase cs) = true ->
+    deleted s = true -> get s c = Some cs -> suspended (cphase cs) = true ->
     (ckind cs = Unary \/ (exists snap, cphase cs = PU3 snap) \/ (exists n, cphase cs = PParked n)) ->
-    sspec K s (LDelExit c) (finish (cphase cs) c (with_phase (PDone ONotFound)) s)
+    sspec ho K s (LDelExit c) (leave ho (cphase cs) c (with_phase (PDone ONotFound)) s)
 | sp_enq r :
     is_pull r = false -> exited s = false -> length (mailbox s) < K ->
-    sspec K s (LEnq r) (set_mailbox (mailbox s ++ [r]) s)
+    sspec ho K s (LEnq r) (set_mailbox (mailbox s ++ [r]) s)
 | sp_expire_del j :
-    exited s = false -> deleted s = true -> sspec K s (LExpire j) s
+    exited s = false -> deleted s = true -> sspec ho K s (LExpire j) s
 | sp_expire j :
-    exited s = false -> deleted s = false -> sspec K s (LExpire j) (requeue j s)
+    exited s = false -> deleted s = false -> sspec ho K s (LExpire j) (requeue j s)
 | sp_arrive k m :
-    sspec K s (LArrive k m) (set_conss (conss s ++ [new_cons k m]) s)
+    sspec ho K s (LArrive k m) (set_conss (conss s ++ [new_cons k m]) s)
 | sp_cancel c cs :
-    get s c = Some cs -> alive (cphase cs) = true ->
-    sspec K s (LCancel c) (finish (cphase cs) c (with_phase PGone) s)
+    get s c = Some cs -> suspended (cphase cs) = true ->
+    sspec ho K s (LCancel c) (leave ho (cphase cs) c (with_phase PGone) s)
 | sp_timeout c cs :
-    get s c = Some cs -> alive (cphase cs) = true -> ckind cs = Unary ->
-    sspec K s (LTimeout c)
-      (finish (cphase cs) c (fun x => with_timed (with_phase (PDone OEmpty) x)) s).
+    get s c = Some cs -> suspended (cphase cs) = true -> ckind cs = Unary ->
+    sspec ho K s (LTimeout c)
+      (leave ho (cphase cs) c (fun x => with_timed (with_phase (PDone OEmpty) x)) s).
 
-Lemma step_sspec K s l s' : step K s l = Some s' -> sspec K s l s'.
+Lemma step_sspec ho K s l s' : step ho K s l = Some s' -> sspec ho K s l s'.
 Proof.
   destruct l as [| |c|c|r|j|k m|c|c]; cbn [step]; intros H.
   - unfold turn in H. destruct (exited s) eqn:Ex; [discriminate|].
@@ -237,7 +252,7 @@ Proof.
     destruct (deleted s) eqn:Ed.
     + destruct r as [n|c m|j|j|]; cbv beta zeta iota.
       * eapply sp_turn_del_other; eauto.
-      * apply (sp_turn_del_pull K s c m rest); auto.
+      * apply (sp_turn_del_pull ho K s c m rest); auto.
       * eapply sp_turn_del_other; eauto.
       * eapply sp_turn_del_other; eauto.
       * eapply sp_turn_del_other; eauto.
@@ -253,7 +268,8 @@ Proof.
     destruct (cphase cs) as [o|snap o|snap [[[|k]|]|]|snap|n| |] eqn:P; try discriminate.
     + injection H as <-. eapply sp_u0; eauto.
     + destruct (exited s) eqn:Ex.
-      * injection H as <-. eapply sp_u1_closed; eauto.
+      * injection H as <-. pose proof (sp_u1_closed ho K s c cs snap o G P Ex) as Q.
+        rewrite P in Q. exact Q.
       * destruct (Nat.ltb (length (mailbox s)) K) eqn:L; [|discriminate].
         injection H as <-. apply Nat.ltb_lt in L. eapply sp_u1_send; eauto.
     + injection H as <-. eapply sp_u2_empty; eauto.
@@ -269,9 +285,9 @@ Proof.
     + destruct n; try discriminate; injection H as <-; eapply sp_woken; eauto; discriminate.
   - unfold del_exit in H. destruct (deleted s) eqn:Ed; cbn [negb] in H; [|discriminate].
     destruct (get s c) as [cs|] eqn:G; [|discriminate].
-    pose proof (sp_delexit K s c cs Ed G) as Q.
-    destruct (ckind cs) eqn:Ek; destruct (cphase cs) eqn:P; try discriminate; injection H as <-;
-      apply Q; auto; eauto.
+    pose proof (sp_delexit ho K s c cs Ed G) as Q.
+    destruct (ckind cs) eqn:Ek; destruct (cphase cs) as [[|]| | | | | |] eqn:P; try discriminate;
+      injection H as <-; apply Q; auto; eauto.
   - destruct (is_pull r) eqn:Ip; cbn [orb negb] in H; [discriminate|].
     destruct (exited s) eqn:Ex; cbn [orb negb] in H; [discriminate|].
     destruct (Nat.ltb (length (mailbox s)) K) eqn:L; cbn [orb negb] in H; [|discriminate].
@@ -280,10 +296,10 @@ Proof.
     destruct (deleted s) eqn:Ed; [apply sp_expire_del|apply sp_expire]; auto.
   - injection H as <-. apply sp_arrive.
   - unfold cancel in H. destruct (get s c) as [cs|] eqn:G; [|discriminate].
-    destruct (alive (cphase cs)) eqn:A; [|discriminate]. injection H as <-. apply sp_cancel; auto.
+    destruct (suspended (cphase cs)) eqn:A; [|discriminate]. injection H as <-. apply sp_cancel; auto.
   - unfold timeout in H. destruct (get s c) as [cs|] eqn:G; [|discriminate].
     destruct (ckind cs) eqn:Ek; [|discriminate].
-    destruct (alive (cphase cs)) eqn:A; [|discriminate]. injection H as <-. apply sp_timeout; auto.
+    destruct (suspended (cphase cs)) eqn:A; [|discriminate]. injection H as <-. apply sp_timeout; auto.
 Qed.
 
 (* ------------------------------------------------------------------ *)
@@ -341,6 +357,17 @@ Proof.
   - (* Waiting(one): forward *)
     apply nwf_notify_one. apply (N NOne); auto. discriminate.
 Qed.
+
+Lemma nwf_leave ho s c cs f :
+  nwf s -> get s c = Some cs -> cphase (f cs) <> PParked NNone ->
+  nwf (leave ho (cphase cs) c f s).
+Proof.
+  intros W G Hf. pose proof (nwf_finish s c cs f W G Hf) as W1. unfold leave.
+  destruct (cphase cs); auto. destruct ho; auto. apply nwf_notify_one; auto.
+Qed.
+
+Lemma suspended_alive p : suspended p = true -> alive p = true.
+Proof. destruct p as [[]| | | | | |]; cbn; auto. Qed.
 
 Lemma nwf_park s c cs :
   nwf s -> get s c = Some cs -> cphase cs <> PParked NNone -> permit s = false ->
@@ -438,7 +465,7 @@ Proof.
   intros (cs & G & _). unfold get in G. cbn in G. destruct c; discriminate.
 Qed.
 
-Lemma nwf_step K s l s' : nwf s -> step K s l = Some s' -> nwf s'.
+Lemma nwf_step ho K s l s' : nwf s -> step ho K s l = Some s' -> nwf s'.
 Proof.
   intros W H. apply step_sspec in H.
   destruct H as [c m rest Ex Em Ed|r rest Ex Em Ed Ip|n rest Ex Em Ed|c m rest Ex Em Ed
@@ -460,7 +487,7 @@ Proof.
   - apply nwf_notify_waiters. eapply nwf_ext; eauto.
   - eapply nwf_ext with (s := fold_left close_req (mailbox s) s); auto. apply nwf_close; auto.
   - apply nwf_setc_neutral; auto. neutral G P.
-  - apply nwf_setc_neutral; auto. neutral G P.
+  - apply nwf_leave; auto. discriminate.
   - eapply nwf_ext with (s := setc c (with_phase (PU2 snap None)) s); auto.
     apply nwf_setc_neutral; auto. neutral G P.
   - apply nwf_setc_neutral; auto. neutral G P.
@@ -472,16 +499,16 @@ Proof.
   - apply nwf_setc_neutral; auto. neutral G P.
   - apply nwf_park with (cs := cs); auto. congruence.
   - apply nwf_setc_neutral; auto. neutral G P.
-  - apply nwf_finish; auto. discriminate.
+  - apply nwf_leave; auto. discriminate.
   - eapply nwf_ext; eauto.
   - assumption.
   - apply nwf_requeue; auto.
   - apply nwf_arrive; auto.
-  - apply nwf_finish; auto. discriminate.
-  - apply nwf_finish; auto. discriminate.
+  - apply nwf_leave; auto. discriminate.
+  - apply nwf_leave; auto. discriminate.
 Qed.
 
-Theorem notify_wf K s : reachable K s -> nwf s.
+Theorem notify_wf ho K s : reachable ho K s -> nwf s.
 Proof. induction 1; [apply nwf_init|eapply nwf_step; eauto]. Qed.
 
 (* ------------------------------------------------------------------ *)
@@ -511,6 +538,18 @@ Lemma mailbox_finish old c f s : mailbox (finish old c f s) = mailbox s.
 Proof. unfold finish. destruct old as [| | | |[]| |]; cbn [mailbox set_waiters]; rewrite ?mailbox_notify_one; reflexivity. Qed.
 Lemma calls_finish old c f s : calls (finish old c f s) = calls s.
 Proof. unfold finish. destruct old as [| | | |[]| |]; cbn [calls set_waiters]; rewrite ?calls_notify_one; reflexivity. Qed.
+Lemma backlog_leave ho old c f s : backlog (leave ho old c f s) = backlog s.
+Proof. unfold leave. destruct old; try destruct ho; rewrite ?backlog_notify_one; apply backlog_finish. Qed.
+Lemma leased_leave ho old c f s : leased (leave ho old c f s) = leased s.
+Proof. unfold leave. destruct old; try destruct ho; rewrite ?leased_notify_one; apply leased_finish. Qed.
+Lemma deleted_leave ho old c f s : deleted (leave ho old c f s) = deleted s.
+Proof. unfold leave. destruct old; try destruct ho; rewrite ?deleted_notify_one; apply deleted_finish. Qed.
+Lemma exited_leave ho old c f s : exited (leave ho old c f s) = exited s.
+Proof. unfold leave. destruct old; try destruct ho; rewrite ?exited_notify_one; apply exited_finish. Qed.
+Lemma mailbox_leave ho old c f s : mailbox (leave ho old c f s) = mailbox s.
+Proof. unfold leave. destruct old; try destruct ho; rewrite ?mailbox_notify_one; apply mailbox_finish. Qed.
+Lemma calls_leave ho old c f s : calls (leave ho old c f s) = calls s.
+Proof. unfold leave. destruct old; try destruct ho; rewrite ?calls_notify_one; apply calls_finish. Qed.
 Lemma backlog_deliver c r s : backlog (deliver c r s) = backlog s.
 Proof. reflexivity. Qed.
 Lemma leased_deliver c r s : leased (deliver c r s) = leased s.
@@ -559,7 +598,7 @@ Lemma mailbox_notify_waiters s : mailbox (notify_waiters s) = mailbox s.
 Proof. reflexivity. Qed.
 Lemma permit_notify_waiters s : permit (notify_waiters s) = permit s.
 Proof. reflexivity. Qed.
-#[global] Hint Rewrite backlog_notify_one leased_notify_one deleted_notify_one exited_notify_one mailbox_notify_one calls_notify_one backlog_finish leased_finish deleted_finish exited_finish mailbox_finish calls_finish backlog_deliver leased_deliver deleted_deliver exited_deliver mailbox_deliver calls_deliver backlog_close leased_close deleted_close exited_close mailbox_close calls_close permit_close waiters_close deleted_requeue exited_requeue mailbox_requeue calls_requeue backlog_notify_waiters leased_notify_waiters deleted_notify_waiters exited_notify_waiters mailbox_notify_waiters permit_notify_waiters : frame.
+#[global] Hint Rewrite backlog_notify_one leased_notify_one deleted_notify_one exited_notify_one mailbox_notify_one calls_notify_one backlog_finish leased_finish deleted_finish exited_finish mailbox_finish calls_finish backlog_leave leased_leave deleted_leave exited_leave mailbox_leave calls_leave backlog_deliver leased_deliver deleted_deliver exited_deliver mailbox_deliver calls_deliver backlog_close leased_close deleted_close exited_close mailbox_close calls_close permit_close waiters_close deleted_requeue exited_requeue mailbox_requeue calls_requeue backlog_notify_waiters leased_notify_waiters deleted_notify_waiters exited_notify_waiters mailbox_notify_waiters permit_notify_waiters : frame.
 
 Ltac fr := ss; autorewrite with frame in *; ss; autorewrite with frame in *.
 
@@ -632,6 +671,13 @@ Proof.
   apply u2n_notify_one; auto.
 Qed.
 
+Lemma u2n_leave ho old s c0 f c :
+  (forall x snap, cphase (f x) <> PU2 snap None) -> u2n (leave ho old c0 f s) c -> u2n s c /\ c <> c0.
+Proof.
+  intros Hf H. apply (u2n_finish old s c0 f c Hf). unfold leave in H.
+  destruct old; auto; destruct ho; auto; apply u2n_notify_one; auto.
+Qed.
+
 Lemma u2n_deliver s c0 r c : u2n (deliver c0 r s) c -> u2n s c /\ c <> c0.
 Proof. apply u2n_setc_not. intros x snap. apply deliver_f_not. Qed.
 
@@ -672,7 +718,7 @@ Qed.
 Ltac u2_local H :=
   apply u2n_setc_not in H; [|intros ? ?; cbn; discriminate]; destruct H as [H _].
 
-Lemma swf_step K s l s' : swf K s -> step K s l = Some s' -> swf K s'.
+Lemma swf_step ho K s l s' : swf K s -> step ho K s l = Some s' -> swf K s'.
 Proof.
   intros [X M U CL] H. apply step_sspec in H.
   destruct H as [c m rest Ex Em Ed|r rest Ex Em Ed Ip|n rest Ex Em Ed|c m rest Ex Em Ed
@@ -723,7 +769,8 @@ Proof.
     intros c' H. apply u2n_ext with (s := fold_left close_req (mailbox s) s) in H; auto.
     apply u2n_close in H. destruct H as [H1 H2]. destruct (U c' H1) as (m' & I). exfalso. eapply H2; eauto.
   - split; fr; auto. intros c' H. u2_local H. auto.
-  - split; fr; auto. intros c' H. u2_local H. auto.
+  - split; fr; auto. intros c' H. apply u2n_leave in H; [|intros ? ?; cbn; discriminate].
+    destruct H as [H _]. auto.
   - split; fr; try congruence.
     + rewrite app_length. cbn. lia.
     + intros c' H. destruct (Nat.eq_dec c' c) as [->|N].
@@ -741,7 +788,7 @@ Proof.
   - split; fr; auto. intros c' H.
     apply u2n_ext with (s := setc c (with_phase (PParked NNone)) s) in H; auto. u2_local H. auto.
   - split; fr; auto. intros c' H. u2_local H. auto.
-  - split; fr; auto. intros c' H. apply u2n_finish in H; [|intros ? ?; cbn; discriminate].
+  - split; fr; auto. intros c' H. apply u2n_leave in H; [|intros ? ?; cbn; discriminate].
     destruct H as [H _]. auto.
   - split; fr; try congruence.
     + rewrite app_length. cbn. lia.
@@ -750,21 +797,21 @@ Proof.
   - split; auto.
   - split; fr; auto. intros c' H. apply u2n_requeue in H. auto.
   - split; fr; auto. intros c' H. apply u2n_arrive in H. auto.
-  - split; fr; auto. intros c' H. apply u2n_finish in H; [|intros ? ?; cbn; discriminate].
+  - split; fr; auto. intros c' H. apply u2n_leave in H; [|intros ? ?; cbn; discriminate].
     destruct H as [H _]. auto.
-  - split; fr; auto. intros c' H. apply u2n_finish in H; [|intros ? ?; cbn; discriminate].
+  - split; fr; auto. intros c' H. apply u2n_leave in H; [|intros ? ?; cbn; discriminate].
     destruct H as [H _]. auto.
 Qed.
 
-Theorem actor_wf K s : reachable K s -> swf K s.
+Theorem actor_wf ho K s : reachable ho K s -> swf K s.
 Proof. induction 1; [apply swf_init|eapply swf_step; eauto]. Qed.
 
 Lemma csig_waiting_none cs : csig cs = NWaiting NNone <-> cphase cs = PParked NNone.
 Proof. unfold csig. destruct (cphase cs) as [| | | |[]| |]; cbn; split; congruence. Qed.
 
 (* A, in the vocabulary of tokio's Notify. *)
-Theorem notify_wf_sig K s :
-  reachable K s ->
+Theorem notify_wf_sig ho K s :
+  reachable ho K s ->
   NoDup (waiters s) /\
   (forall c, In c (waiters s) <-> exists cs, get s c = Some cs /\ csig cs = NWaiting NNone) /\
   (permit s = true -> waiters s = []) /\
@@ -774,7 +821,7 @@ Theorem notify_wf_sig K s :
   (forall c cs snap, get s c = Some cs -> cphase cs = PU2 snap None ->
      exists m, In (RPull c m) (mailbox s)).
 Proof.
-  intros R. destruct (notify_wf K s R) as [A B C]. destruct (actor_wf K s R) as [X M U CL].
+  intros R. destruct (notify_wf ho K s R) as [A B C]. destruct (actor_wf ho K s R) as [X M U CL].
   repeat split; auto.
   - intros H. apply B in H. destruct H as (cs & G & P). exists cs. split; auto. apply csig_waiting_none; auto.
   - intros (cs & G & P). apply B. exists cs. split; auto. apply csig_waiting_none; auto.
@@ -855,30 +902,43 @@ Proof.
   - cbn. apply Nat.ltb_ge in E. lia.
 Qed.
 
-Lemma tokinv_finish s c cs f :
+(* A consumer goes away.  Either it holds no notification (it does not owe a
+   Pull, or ho = false and the step is not a bad drop), or it was woken and has
+   not run (Drop for Notified forwards), or -- repaired code -- it waits for
+   room in the mailbox and its guard calls notify_one. *)
+Lemma tokinv_leave ho s c cs f :
   nwf s -> tokinv s -> get s c = Some cs ->
-  owes cs && Nat.ltb 0 (backlog s) && negb (deleted s) = false ->
+  cphase cs <> PU0 true ->
+  (ho = true \/ owes cs && Nat.ltb 0 (backlog s) && negb (deleted s) = false) ->
   cphase (f cs) <> PParked NNone ->
-  tokinv (finish (cphase cs) c f s).
+  tokinv (leave ho (cphase cs) c f s).
 Proof.
-  intros W I G NB Hf Hd Hb. fr. specialize (I Hd Hb).
-  assert (L : 0 <? backlog s = true) by (apply Nat.ltb_lt; auto).
-  rewrite L, Hd in NB. cbn in NB. rewrite andb_true_r in NB. unfold owes in NB.
-  assert (NT : cphase cs <> PParked NOne -> ctoken (cphase cs) = false).
-  { destruct (cphase cs) as [[]|? []| | |[]| |]; cbn in *; congruence. }
-  assert (KEEP : cphase cs <> PParked NOne ->
+  intros W I G N0 NB Hf Hd Hb. fr. specialize (I Hd Hb).
+  assert (L : (0 <? backlog s) = true) by (apply Nat.ltb_lt; auto).
+  assert (OW : ho = false -> owes cs = false).
+  { intros E. destruct NB as [NB|NB]; [congruence|].
+    rewrite L, Hd in NB. cbn in NB. rewrite !andb_true_r in NB. exact NB. }
+  assert (W1 : cphase cs <> PParked NNone -> nwf (setc c f s)).
+  { intros Hn. apply nwf_setc_neutral; auto. intros x Gx. rewrite G in Gx. injection Gx as <-.
+    split; intros Q; [contradiction|congruence]. }
+  assert (KEEP : ctoken (cphase cs) = false ->
                  forall c' x, get s c' = Some x -> ctoken (cphase x) = true ->
                    exists x', get (setc c f s) c' = Some x' /\ ctoken (cphase x') = true).
-  { intros Hn. apply ctok_setc. intros x Gx T. rewrite G in Gx. injection Gx as <-.
-    rewrite NT in T; auto. discriminate. }
-  unfold finish. destruct (cphase cs) as [| | | |[]| |] eqn:P;
-    try (eapply tok_keep; [exact I|auto|apply KEEP; discriminate|auto]).
-  apply tok_notify_one. apply nwf_setc_neutral; auto.
-  intros x Gx. rewrite G in Gx. injection Gx as <-. rewrite P. split; intros Q; [contradiction|discriminate].
+  { intros NT. apply ctok_setc. intros x Gx T. rewrite G in Gx. injection Gx as <-. congruence. }
+  unfold leave, owes in *.
+  destruct (cphase cs) as [[]|sn o|sn r|sn|[]| |] eqn:P; cbn [finish];
+    try (eapply tok_keep; [exact I|auto|apply KEEP; reflexivity|auto]; fail).
+  - congruence.
+  - destruct ho.
+    + apply tok_notify_one. apply W1. discriminate.
+    + pose proof (OW eq_refl) as E. cbn in E. subst o.
+      eapply tok_keep; [exact I|auto|apply KEEP; reflexivity|auto].
+  - apply tok_notify_one. apply W1. discriminate.
 Qed.
 
-Lemma tokinv_step K s l s' :
-  nwf s -> swf K s -> tokinv s -> bad_drop s l = false -> step K s l = Some s' -> tokinv s'.
+Lemma tokinv_step ho K s l s' :
+  nwf s -> swf K s -> tokinv s -> (ho = true \/ bad_drop s l = false) ->
+  step ho K s l = Some s' -> tokinv s'.
 Proof.
   intros W SW I NB H. apply step_sspec in H.
   destruct H as [c m rest Ex Em Ed|r rest Ex Em Ed Ip|n rest Ex Em Ed|c m rest Ex Em Ed
@@ -930,52 +990,33 @@ Proof.
   - intros _ Hb. apply tokinv_requeue; auto.
   - intros Hd Hb. fr. eapply tok_keep; [apply I; auto|auto| |auto].
     intros c x Gx T. exists x. split; auto. apply get_arrive; auto.
-  - apply tokinv_finish; auto; [|discriminate]. cbn in NB. unfold owing_at in NB. rewrite G in NB. exact NB.
-  - apply tokinv_finish; auto; [|discriminate]. cbn in NB. unfold owing_at in NB. rewrite G in NB. exact NB.
+  - apply tokinv_leave; auto; [intros E; rewrite E in A; discriminate| |discriminate].
+    destruct NB as [NB|NB]; [left; exact NB|right].
+    cbn in NB. unfold owing_at in NB. rewrite G in NB. exact NB.
+  - apply tokinv_leave; auto; [intros E; rewrite E in A; discriminate| |discriminate].
+    destruct NB as [NB|NB]; [left; exact NB|right].
+    cbn in NB. unfold owing_at in NB. rewrite G in NB. exact NB.
 Qed.
 
 Lemma tokinv_init : tokinv init.
 Proof. intros _ H. cbn in H. lia. Qed.
 
-Lemma reachableR_reachable K s : reachableR K s -> reachable K s.
+Lemma reachableR_reachable ho K s : reachableR ho K s -> reachable ho K s.
 Proof. induction 1; [constructor|econstructor; eauto]. Qed.
 
-Lemma reachableR_tokinv K s : reachableR K s -> tokinv s.
+(* Old code: the invariant holds as long as no owing consumer is dropped. *)
+Lemma reachableR_tokinv ho K s : reachableR ho K s -> tokinv s.
 Proof.
   induction 1 as [|s l s' R IH NB H]; [apply tokinv_init|].
   apply reachableR_reachable in R.
   eapply tokinv_step; eauto; [eapply notify_wf|eapply actor_wf]; eauto.
 Qed.
 
-(* The exact invariant: while the subscription exists and the backlog is
-   non-empty, a notification is pending somewhere. *)
-Theorem C06_no_lost_wakeup_exact K s :
-  reachableR K s -> deleted s = false -> 0 < backlog s ->
-  permit s = true \/
-  (exists c cs, get s c = Some cs /\ (cphase cs = PParked NOne \/ owes cs = true)) \/
-  (exists r, In r (mailbox s) /\ notifying r = true).
+(* Repaired code: the invariant holds in every reachable state. *)
+Lemma reachable_tokinv K s : reachable true K s -> tokinv s.
 Proof.
-  intros R Hd Hb. destruct (reachableR_tokinv K s R Hd Hb) as [T|[(c & cs & G & T)|T]]; auto.
-  right. left. exists c, cs. split; auto. unfold owes.
-  destruct (cphase cs) as [[]|? []| | |[]| |]; cbn in T; try discriminate; auto.
-Qed.
-
-(* The same for the coarser exclusion "no drop of an owing consumer at all". *)
-Definition bad_drop_strict (s : state) (l : label) : bool :=
-  match l with
-  | LCancel c | LTimeout c | LDelExit c => owing_at s c
-  | _ => false
-  end.
-
-Inductive reachableS (K : nat) : state -> Prop :=
-| reachS_init : reachableS K init
-| reachS_step s l s' :
-    reachableS K s -> bad_drop_strict s l = false -> step K s l = Some s' -> reachableS K s'.
-
-Lemma reachableS_R K s : reachableS K s -> reachableR K s.
-Proof.
-  induction 1 as [|s l s' R IH NB H]; [constructor|]. econstructor; eauto.
-  destruct l; cbn in *; auto; rewrite NB; reflexivity.
+  induction 1 as [|s l s' R IH H]; [apply tokinv_init|].
+  eapply tokinv_step; eauto; [eapply notify_wf|eapply actor_wf]; eauto.
 Qed.
 
 Definition is_parked (p : phase) : bool := match p with PParked _ => true | _ => false end.
@@ -984,21 +1025,8 @@ Definition woken (p : phase) : bool :=
 Definition pulling (p : phase) : bool :=
   match p with PU0 _ | PU1 _ _ | PU2 _ _ => true | _ => false end.
 
-(* The statement in the form (i)..(v). *)
-Theorem C06_no_lost_wakeup K s :
-  reachableR K s -> deleted s = false -> 0 < backlog s ->
-  (* i *)   permit s = true \/
-  (* ii *)  (exists c cs, get s c = Some cs /\ (woken (cphase cs) = true \/ owes cs = true)) \/
-  (* iii *) (exists c cs, get s c = Some cs /\ pulling (cphase cs) = true) \/
-  (* iv *)  (exists r, In r (mailbox s) /\ notifying r = true) \/
-  (* v *)   (forall c cs, get s c = Some cs -> is_parked (cphase cs) = false).
-Proof.
-  intros R Hd Hb. destruct (C06_no_lost_wakeup_exact K s R Hd Hb) as [T|[(c & cs & G & T)|T]]; auto.
-  right. left. exists c, cs. split; auto. destruct T as [T|T]; auto. left. rewrite T. reflexivity.
-Qed.
-
 (* "backlog > 0, somebody sleeps in the waiters list, nobody else is active and
-   the mailbox holds nothing that notifies" is unreachable. *)
+   the mailbox holds nothing that notifies". *)
 Definition lost_wakeup (s : state) : Prop :=
   deleted s = false /\ 0 < backlog s /\ permit s = false /\
   (exists c cs, get s c = Some cs /\ cphase cs = PParked NNone) /\
@@ -1007,10 +1035,34 @@ Definition lost_wakeup (s : state) : Prop :=
      (exists snap r, cphase cs = PU2 snap (Some r)) \/ (exists snap, cphase cs = PU3 snap)) /\
   (forall r, In r (mailbox s) -> notifying r = false).
 
-Corollary C06_lost_wakeup_unreachable K s : reachableR K s -> ~ lost_wakeup s.
+(* What the invariant says, in the three forms used below. *)
+Lemma tokinv_exact s :
+  tokinv s -> deleted s = false -> 0 < backlog s ->
+  permit s = true \/
+  (exists c cs, get s c = Some cs /\ (cphase cs = PParked NOne \/ owes cs = true)) \/
+  (exists r, In r (mailbox s) /\ notifying r = true).
 Proof.
-  intros R (Hd & Hb & Hp & _ & Hc & Hm).
-  destruct (C06_no_lost_wakeup_exact K s R Hd Hb) as [T|[(c & cs & G & T)|(r & Ir & T)]].
+  intros I Hd Hb. destruct (I Hd Hb) as [T|[(c & cs & G & T)|T]]; auto.
+  right. left. exists c, cs. split; auto. unfold owes.
+  destruct (cphase cs) as [[]|? []| | |[]| |]; cbn in T; try discriminate; auto.
+Qed.
+
+Lemma tokinv_five s :
+  tokinv s -> deleted s = false -> 0 < backlog s ->
+  (* i *)   permit s = true \/
+  (* ii *)  (exists c cs, get s c = Some cs /\ (woken (cphase cs) = true \/ owes cs = true)) \/
+  (* iii *) (exists c cs, get s c = Some cs /\ pulling (cphase cs) = true) \/
+  (* iv *)  (exists r, In r (mailbox s) /\ notifying r = true) \/
+  (* v *)   (forall c cs, get s c = Some cs -> is_parked (cphase cs) = false).
+Proof.
+  intros I Hd Hb. destruct (tokinv_exact s I Hd Hb) as [T|[(c & cs & G & T)|T]]; auto.
+  right. left. exists c, cs. split; auto. destruct T as [T|T]; auto. left. rewrite T. reflexivity.
+Qed.
+
+Lemma tokinv_not_lost s : tokinv s -> ~ lost_wakeup s.
+Proof.
+  intros I (Hd & Hb & Hp & _ & Hc & Hm).
+  destruct (tokinv_exact s I Hd Hb) as [T|[(c & cs & G & T)|(r & Ir & T)]].
   - congruence.
   - unfold owes in T.
     destruct (Hc c cs G) as [Q|[Q|[(sn & r & Q)|(sn & Q)]]].
@@ -1021,42 +1073,106 @@ Proof.
   - rewrite (Hm r Ir) in T. discriminate.
 Qed.
 
-Lemma run_reachable K ls : forall s s', reachable K s -> run K s ls = Some s' -> reachable K s'.
+(* ---- the repaired code (ho = true): every reachable state ---- *)
+
+(* The exact invariant: while the subscription exists and the backlog is
+   non-empty, a notification is pending somewhere. *)
+Theorem C06_no_lost_wakeup_exact K s :
+  reachable true K s -> deleted s = false -> 0 < backlog s ->
+  permit s = true \/
+  (exists c cs, get s c = Some cs /\ (cphase cs = PParked NOne \/ owes cs = true)) \/
+  (exists r, In r (mailbox s) /\ notifying r = true).
+Proof. intros R. apply tokinv_exact. eapply reachable_tokinv; eauto. Qed.
+
+(* The statement in the form (i)..(v). *)
+Theorem C06_no_lost_wakeup K s :
+  reachable true K s -> deleted s = false -> 0 < backlog s ->
+  (* i *)   permit s = true \/
+  (* ii *)  (exists c cs, get s c = Some cs /\ (woken (cphase cs) = true \/ owes cs = true)) \/
+  (* iii *) (exists c cs, get s c = Some cs /\ pulling (cphase cs) = true) \/
+  (* iv *)  (exists r, In r (mailbox s) /\ notifying r = true) \/
+  (* v *)   (forall c cs, get s c = Some cs -> is_parked (cphase cs) = false).
+Proof. intros R. apply tokinv_five. eapply reachable_tokinv; eauto. Qed.
+
+Corollary C06_lost_wakeup_unreachable K s : reachable true K s -> ~ lost_wakeup s.
+Proof. intros R. apply tokinv_not_lost. eapply reachable_tokinv; eauto. Qed.
+
+(* ---- the old code (ho = false; the statements hold for both values): the
+        same, provided no owing consumer is dropped ---- *)
+
+Theorem C06_no_lost_wakeup_exact_old ho K s :
+  reachableR ho K s -> deleted s = false -> 0 < backlog s ->
+  permit s = true \/
+  (exists c cs, get s c = Some cs /\ (cphase cs = PParked NOne \/ owes cs = true)) \/
+  (exists r, In r (mailbox s) /\ notifying r = true).
+Proof. intros R. apply tokinv_exact. eapply reachableR_tokinv; eauto. Qed.
+
+Theorem C06_no_lost_wakeup_old ho K s :
+  reachableR ho K s -> deleted s = false -> 0 < backlog s ->
+  permit s = true \/
+  (exists c cs, get s c = Some cs /\ (woken (cphase cs) = true \/ owes cs = true)) \/
+  (exists c cs, get s c = Some cs /\ pulling (cphase cs) = true) \/
+  (exists r, In r (mailbox s) /\ notifying r = true) \/
+  (forall c cs, get s c = Some cs -> is_parked (cphase cs) = false).
+Proof. intros R. apply tokinv_five. eapply reachableR_tokinv; eauto. Qed.
+
+Corollary C06_lost_wakeup_unreachable_old ho K s : reachableR ho K s -> ~ lost_wakeup s.
+Proof. intros R. apply tokinv_not_lost. eapply reachableR_tokinv; eauto. Qed.
+
+(* The coarser exclusion "no drop of an owing consumer at all" is covered. *)
+Definition bad_drop_strict (s : state) (l : label) : bool :=
+  match l with
+  | LCancel c | LTimeout c | LDelExit c => owing_at s c
+  | _ => false
+  end.
+
+Inductive reachableS (ho : bool) (K : nat) : state -> Prop :=
+| reachS_init : reachableS ho K init
+| reachS_step s l s' :
+    reachableS ho K s -> bad_drop_strict s l = false -> step ho K s l = Some s' -> reachableS ho K s'.
+
+Lemma reachableS_R ho K s : reachableS ho K s -> reachableR ho K s.
+Proof.
+  induction 1 as [|s l s' R IH NB H]; [constructor|]. econstructor; eauto.
+  destruct l; cbn in *; auto; rewrite NB; reflexivity.
+Qed.
+
+Lemma run_reachable ho K ls : forall s s', reachable ho K s -> run ho K s ls = Some s' -> reachable ho K s'.
 Proof.
   induction ls as [|l ls IH]; intros s s' R H; cbn in H.
   - injection H as <-. assumption.
-  - destruct (step K s l) as [s1|] eqn:E; [|discriminate]. eapply IH; [|exact H].
+  - destruct (step ho K s l) as [s1|] eqn:E; [|discriminate]. eapply IH; [|exact H].
     econstructor; eauto.
 Qed.
 
 (* Cancelling a consumer that sleeps in the waiters list is harmless: it only
    leaves the list. *)
-Theorem C06_cancel_parked_ok K s c cs s' :
-  reachable K s -> tokinv s -> get s c = Some cs -> cphase cs = PParked NNone ->
-  step K s (LCancel c) = Some s' ->
+Theorem C06_cancel_parked_ok ho K s c cs s' :
+  reachable ho K s -> tokinv s -> get s c = Some cs -> cphase cs = PParked NNone ->
+  step ho K s (LCancel c) = Some s' ->
   tokinv s' /\ waiters s' = remove Nat.eq_dec c (waiters s).
 Proof.
   intros R I G P H. split.
-  - eapply tokinv_step; eauto; [eapply notify_wf|eapply actor_wf|]; eauto.
-    cbn. unfold owing_at, owes. rewrite G, P. reflexivity.
+  - apply (tokinv_step ho K s (LCancel c) s' (notify_wf ho K s R) (actor_wf ho K s R) I); [|exact H].
+    right. cbn. unfold owing_at, owes. rewrite G, P. reflexivity.
   - cbn in H. unfold cancel in H. rewrite G, P in H. cbn in H. injection H as <-. reflexivity.
 Qed.
 
 (* Cancelling a consumer that was woken by notify_one and has not run yet
    forwards the notification (Drop for Notified): afterwards the permit is set
    or the next-oldest waiter is woken. *)
-Theorem C06_cancel_woken_forwarded K s c cs s' :
-  reachable K s -> tokinv s -> get s c = Some cs -> cphase cs = PParked NOne ->
-  step K s (LCancel c) = Some s' ->
+Theorem C06_cancel_woken_forwarded ho K s c cs s' :
+  reachable ho K s -> tokinv s -> get s c = Some cs -> cphase cs = PParked NOne ->
+  step ho K s (LCancel c) = Some s' ->
   tokinv s' /\
   ((waiters s = [] /\ permit s' = true) \/
    (exists w ws cw, waiters s = w :: ws /\ w <> c /\ waiters s' = ws /\
                     get s' w = Some cw /\ cphase cw = PParked NOne)).
 Proof.
-  intros R I G P H. pose proof (notify_wf K s R) as W. split.
-  - eapply tokinv_step; eauto; [eapply actor_wf|]; eauto.
-    cbn. unfold owing_at, owes. rewrite G, P. reflexivity.
-  - cbn in H. unfold cancel in H. rewrite G, P in H. cbn [alive finish] in H. injection H as <-.
+  intros R I G P H. pose proof (notify_wf ho K s R) as W. split.
+  - apply (tokinv_step ho K s (LCancel c) s' W (actor_wf ho K s R) I); [|exact H].
+    right. cbn. unfold owing_at, owes. rewrite G, P. reflexivity.
+  - cbn in H. unfold cancel in H. rewrite G, P in H. cbn [suspended leave finish] in H. injection H as <-.
     unfold notify_one. cbn [waiters setc set_conss]. destruct (waiters s) as [|w ws] eqn:Ew.
     + left. split; reflexivity.
     + right. destruct (proj1 (nw_wait s W w)) as (cw & Gw & Pw); [rewrite Ew; left; auto|].
@@ -1067,30 +1183,30 @@ Proof.
 Qed.
 
 (* C. Quiescence *)
-Lemma quiescent_turn K s : quiescent K s -> turn s = None.
+Lemma quiescent_turn ho K s : quiescent ho K s -> turn s = None.
 Proof. intros Q. apply (Q LTurn). reflexivity. Qed.
-Lemma quiescent_cons K s c : quiescent K s -> cons_step K s c = None.
+Lemma quiescent_cons ho K s c : quiescent ho K s -> cons_step ho K s c = None.
 Proof. intros Q. apply (Q (LCons c)). reflexivity. Qed.
-Lemma quiescent_exit K s : quiescent K s -> actor_exit s = None.
+Lemma quiescent_exit ho K s : quiescent ho K s -> actor_exit s = None.
 Proof. intros Q. apply (Q LExit). reflexivity. Qed.
-Lemma quiescent_delexit K s c : quiescent K s -> del_exit s c = None.
+Lemma quiescent_delexit ho K s c : quiescent ho K s -> del_exit ho s c = None.
 Proof. intros Q. apply (Q (LDelExit c)). reflexivity. Qed.
 
-Theorem C06_quiescent K s :
-  1 <= K -> reachableR K s -> quiescent K s -> deleted s = false -> 0 < backlog s ->
+Lemma quiescent_tokinv ho K s :
+  1 <= K -> reachable ho K s -> tokinv s -> quiescent ho K s -> deleted s = false -> 0 < backlog s ->
   permit s = true /\ waiters s = [] /\
   forall c cs, get s c = Some cs -> is_parked (cphase cs) = false.
 Proof.
-  intros HK R Q Hd Hb. pose proof (reachableR_reachable K s R) as R'.
-  pose proof (notify_wf K s R') as W. pose proof (actor_wf K s R') as SW.
+  intros HK R' I Q Hd Hb.
+  pose proof (notify_wf ho K s R') as W. pose proof (actor_wf ho K s R') as SW.
   assert (Ex : exited s = false).
   { destruct (exited s) eqn:E; auto. destruct (sw_exit K s SW E). congruence. }
   assert (Em : mailbox s = []).
-  { pose proof (quiescent_turn K s Q) as T. unfold turn in T. rewrite Ex in T.
+  { pose proof (quiescent_turn ho K s Q) as T. unfold turn in T. rewrite Ex in T.
     destruct (mailbox s); [reflexivity|discriminate]. }
   assert (Hp : permit s = true).
-  { destruct (reachableR_tokinv K s R Hd Hb) as [T|[(c & cs & G & T)|(r & Ir & _)]]; auto.
-    - exfalso. pose proof (quiescent_cons K s c Q) as C. unfold cons_step in C. rewrite G in C.
+  { destruct (I Hd Hb) as [T|[(c & cs & G & T)|(r & Ir & _)]]; auto.
+    - exfalso. pose proof (quiescent_cons ho K s c Q) as C. unfold cons_step in C. rewrite G in C.
       destruct (cphase cs) as [[]|sn []| | |[]| |]; cbn in T; try discriminate.
       rewrite Ex, Em in C. cbn [length] in C. destruct (Nat.ltb_spec 0 K); [discriminate|lia].
     - rewrite Em in Ir. destruct Ir. }
@@ -1099,8 +1215,29 @@ Proof.
   destruct n.
   - assert (In c (waiters s)) as Hin by (apply (nw_wait s W); exists cs; auto).
     rewrite Ew in Hin. destruct Hin.
-  - pose proof (quiescent_cons K s c Q) as C. unfold cons_step in C. rewrite G, P in C. discriminate.
-  - pose proof (quiescent_cons K s c Q) as C. unfold cons_step in C. rewrite G, P in C. discriminate.
+  - pose proof (quiescent_cons ho K s c Q) as C. unfold cons_step in C. rewrite G, P in C. discriminate.
+  - pose proof (quiescent_cons ho K s c Q) as C. unfold cons_step in C. rewrite G, P in C. discriminate.
+Qed.
+
+(* Repaired code: when everything internal has come to rest and messages are
+   left, the permit is stored and nobody sleeps -- in EVERY reachable state. *)
+Theorem C06_quiescent K s :
+  1 <= K -> reachable true K s -> quiescent true K s -> deleted s = false -> 0 < backlog s ->
+  permit s = true /\ waiters s = [] /\
+  forall c cs, get s c = Some cs -> is_parked (cphase cs) = false.
+Proof.
+  intros HK R. apply quiescent_tokinv; auto. eapply reachable_tokinv; eauto.
+Qed.
+
+(* Old code: the same without the losing drops. *)
+Theorem C06_quiescent_old ho K s :
+  1 <= K -> reachableR ho K s -> quiescent ho K s -> deleted s = false -> 0 < backlog s ->
+  permit s = true /\ waiters s = [] /\
+  forall c cs, get s c = Some cs -> is_parked (cphase cs) = false.
+Proof.
+  intros HK R. apply quiescent_tokinv; auto.
+  - eapply reachableR_reachable; eauto.
+  - eapply reachableR_tokinv; eauto.
 Qed.
 
 (* ------------------------------------------------------------------ *)
@@ -1173,6 +1310,13 @@ Section AllC.
     apply allc_notify_one. assumption.
   Qed.
 
+  Lemma allc_leave ho old s c f :
+    allc P s -> (forall cs, get s c = Some cs -> P c cs -> P c (f cs)) -> allc P (leave ho old c f s).
+  Proof.
+    intros A Hf. pose proof (allc_finish old s c f A Hf) as A1. unfold leave.
+    destruct old; auto. destruct ho; auto. apply allc_notify_one; auto.
+  Qed.
+
   Lemma allc_deliver s c r : allc P s -> allc P (deliver c r s).
   Proof. intros A. apply allc_setc; auto. intros cs _. apply P_deliver. Qed.
 
@@ -1189,7 +1333,7 @@ Section AllC.
     - eapply allc_ext; [|eassumption]; reflexivity.
   Qed.
 
-  Lemma allc_step K s s' : step K s l = Some s' -> allc P s -> allc P s'.
+  Lemma allc_step ho K s s' : step ho K s l = Some s' -> allc P s -> allc P s'.
   Proof.
     intros H A. apply step_sspec in H.
     destruct H as [c m rest Ex Em Ed|r rest Ex Em Ed Ip|n rest Ex Em Ed|c m rest Ex Em Ed
@@ -1214,7 +1358,7 @@ Section AllC.
       apply allc_close. assumption.
     - apply allc_setc; auto. intros x Gx Px. rewrite G in Gx. injection Gx as <-.
       apply H_live; auto. rewrite Ph. reflexivity.
-    - apply allc_setc; auto. intros x Gx Px. rewrite G in Gx. injection Gx as <-.
+    - apply allc_leave; auto. intros x Gx Px. rewrite G in Gx. injection Gx as <-.
       apply H_closed; auto. rewrite Ph. reflexivity.
     - eapply allc_ext with (s := setc c (with_phase (PU2 snap None)) s); [reflexivity|].
       apply allc_setc; auto. intros x Gx Px. rewrite G in Gx. injection Gx as <-.
@@ -1237,13 +1381,16 @@ Section AllC.
       apply H_live; auto. rewrite Ph. reflexivity.
     - apply allc_setc; auto. intros x Gx Px. rewrite G in Gx. injection Gx as <-.
       apply H_live; auto. rewrite Ph. reflexivity.
-    - apply allc_finish; auto. intros x Gx Px. rewrite G in Gx. injection Gx as <-. auto.
+    - apply suspended_alive in Al. apply allc_leave; auto.
+      intros x Gx Px. rewrite G in Gx. injection Gx as <-. auto.
     - eapply allc_ext; [|eassumption]; reflexivity.
     - assumption.
     - apply allc_requeue. assumption.
     - intros c cs G. apply get_arrive_inv in G. destruct G as [G|(_ & -> & _)]; auto.
-    - apply allc_finish; auto. intros x Gx Px. rewrite G in Gx. injection Gx as <-. auto.
-    - apply allc_finish; auto. intros x Gx Px. rewrite G in Gx. injection Gx as <-. auto.
+    - apply suspended_alive in Al. apply allc_leave; auto.
+      intros x Gx Px. rewrite G in Gx. injection Gx as <-. auto.
+    - apply suspended_alive in Al. apply allc_leave; auto.
+      intros x Gx Px. rewrite G in Gx. injection Gx as <-. auto.
   Qed.
 End AllC.
 
@@ -1261,7 +1408,7 @@ Definition cinv (c : nat) (cs : cons) : Prop :=
   | _ => True
   end /\ (ctimed cs = true -> cphase cs = PDone OEmpty).
 
-Lemma cinv_step K s l s' : step K s l = Some s' -> allc cinv s -> allc cinv s'.
+Lemma cinv_step ho K s l s' : step ho K s l = Some s' -> allc cinv s -> allc cinv s'.
 Proof.
   apply allc_step; unfold cinv.
   - intros c cs p [A B] Al Ap. cbn. split.
@@ -1279,48 +1426,48 @@ Proof.
   - intros c k m. cbn. split; auto. discriminate.
 Qed.
 
-Theorem outcomes_wf K s : reachable K s -> allc cinv s.
+Theorem outcomes_wf ho K s : reachable ho K s -> allc cinv s.
 Proof. induction 1; [apply allc_init|eapply cinv_step; eauto]. Qed.
 
-Lemma run_snoc K ls : forall s l,
-  run K s (ls ++ [l]) = match run K s ls with Some s1 => step K s1 l | None => None end.
+Lemma run_snoc ho K ls : forall s l,
+  run ho K s (ls ++ [l]) = match run ho K s ls with Some s1 => step ho K s1 l | None => None end.
 Proof.
   induction ls as [|x ls IH]; intros s l; cbn.
-  - destruct (step K s l); reflexivity.
-  - destruct (step K s x); auto.
+  - destruct (step ho K s l); reflexivity.
+  - destruct (step ho K s x); auto.
 Qed.
 
 Definition timed_hist (ls : list label) (c : nat) (cs : cons) : Prop :=
   ctimed cs = true -> In (LTimeout c) ls.
 
-Lemma timed_hist_run K ls : forall s, run K init ls = Some s -> allc (timed_hist ls) s.
+Lemma timed_hist_run ho K ls : forall s, run ho K init ls = Some s -> allc (timed_hist ls) s.
 Proof.
   induction ls as [|l ls IH] using rev_ind; intros s H.
   - cbn in H. injection H as <-. apply allc_init.
-  - rewrite run_snoc in H. destruct (run K init ls) as [s1|] eqn:E; [|discriminate].
+  - rewrite run_snoc in H. destruct (run ho K init ls) as [s1|] eqn:E; [|discriminate].
     specialize (IH s1 eq_refl).
     assert (A : allc (timed_hist (ls ++ [l])) s1).
     { intros c cs G T. apply in_or_app. left. apply (IH c cs G T). }
-    revert A. apply (allc_step (timed_hist (ls ++ [l])) l) with (K := K); auto; unfold timed_hist; cbn; auto.
+    revert A. apply (allc_step (timed_hist (ls ++ [l])) l) with (ho := ho) (K := K); auto; unfold timed_hist; cbn; auto.
     + intros c cs -> _ _ _ _. apply in_or_app. right. left. reflexivity.
     + intros; discriminate.
 Qed.
 
 (* A blocking Pull answers "no messages" only because its 300 s timer fired. *)
-Theorem C15_empty_rule K ls s c cs :
-  run K init ls = Some s -> get s c = Some cs -> cphase cs = PDone OEmpty ->
+Theorem C15_empty_rule ho K ls s c cs :
+  run ho K init ls = Some s -> get s c = Some cs -> cphase cs = PDone OEmpty ->
   ckind cs = Unary /\ In (LTimeout c) ls.
 Proof.
   intros H G Ph.
-  assert (R : reachable K s) by (eapply run_reachable; eauto; constructor).
-  destruct (outcomes_wf K s R c cs G) as [A B]. rewrite Ph in A. destruct A as [A1 A2].
-  split; auto. apply (timed_hist_run K ls s H c cs G A2).
+  assert (R : reachable ho K s) by (eapply run_reachable; eauto; constructor).
+  destruct (outcomes_wf ho K s R c cs G) as [A B]. rewrite Ph in A. destruct A as [A1 A2].
+  split; auto. apply (timed_hist_run ho K ls s H c cs G A2).
 Qed.
 
 (* Streams never produce an empty answer or an error other than NotFound, and
    a Messages answer is never empty. *)
-Theorem C15_outcomes K s c cs o :
-  reachable K s -> get s c = Some cs -> cphase cs = PDone o ->
+Theorem C15_outcomes ho K s c cs o :
+  reachable ho K s -> get s c = Some cs -> cphase cs = PDone o ->
   match o with
   | OMessages k => ckind cs = Unary /\ 0 < k
   | OEmpty => ckind cs = Unary /\ ctimed cs = true
@@ -1328,14 +1475,14 @@ Theorem C15_outcomes K s c cs o :
   | ONotFound => True
   end.
 Proof.
-  intros R G Ph. destruct (outcomes_wf K s R c cs G) as [A _]. rewrite Ph in A.
+  intros R G Ph. destruct (outcomes_wf ho K s R c cs G) as [A _]. rewrite Ph in A.
   destruct o; auto.
 Qed.
 
 (* An empty reply makes the consumer go on to poll its signal; it does not finish. *)
-Theorem C15_empty_reply_continues K s c cs snap s' :
+Theorem C15_empty_reply_continues ho K s c cs snap s' :
   get s c = Some cs -> cphase cs = PU2 snap (Some (RMsgs 0)) ->
-  step K s (LCons c) = Some s' ->
+  step ho K s (LCons c) = Some s' ->
   get s' c = Some (with_phase (PU3 snap) cs).
 Proof.
   intros G Ph H. cbn in H. unfold cons_step in H. rewrite G, Ph in H. injection H as <-.
@@ -1354,24 +1501,24 @@ Definition released (cs : cons) : Prop :=
                (o = OEmpty /\ ctimed cs = true)
     end.
 
-Lemma step_deleted K s l s' : step K s l = Some s' -> deleted s = true -> deleted s' = true.
+Lemma step_deleted ho K s l s' : step ho K s l = Some s' -> deleted s = true -> deleted s' = true.
 Proof.
   intros H D. apply step_sspec in H. destruct H; try (cbv zeta; destruct (Nat.ltb 0 _)); fr; auto; congruence.
 Qed.
 
-Theorem C12_release K s :
-  reachable K s -> deleted s = true -> quiescent K s ->
+Theorem C12_release ho K s :
+  reachable ho K s -> deleted s = true -> quiescent ho K s ->
   exited s = true /\ mailbox s = [] /\ waiters s = [] /\
   forall c cs, get s c = Some cs -> released cs.
 Proof.
-  intros R Hd Q. pose proof (notify_wf K s R) as W. pose proof (actor_wf K s R) as SW.
-  pose proof (outcomes_wf K s R) as O.
+  intros R Hd Q. pose proof (notify_wf ho K s R) as W. pose proof (actor_wf ho K s R) as SW.
+  pose proof (outcomes_wf ho K s R) as O.
   assert (Ex : exited s = true).
-  { pose proof (quiescent_exit K s Q) as E. unfold actor_exit in E. rewrite Hd in E.
+  { pose proof (quiescent_exit ho K s Q) as E. unfold actor_exit in E. rewrite Hd in E.
     destruct (exited s); [reflexivity|discriminate]. }
   destruct (sw_exit K s SW Ex) as [_ Em].
   assert (Rel : forall c cs, get s c = Some cs -> released cs).
-  { intros c cs G. pose proof (quiescent_cons K s c Q) as C. pose proof (quiescent_delexit K s c Q) as D.
+  { intros c cs G. pose proof (quiescent_cons ho K s c Q) as C. pose proof (quiescent_delexit ho K s c Q) as D.
     unfold cons_step in C. unfold del_exit in D. rewrite G in C. rewrite Hd, G in D. cbn [negb] in D.
     destruct (cphase cs) as [o|sn o|sn [[[|k]|]|]|sn|n|o|] eqn:Ph; try discriminate.
     - rewrite Ex in C. discriminate.
@@ -1417,73 +1564,122 @@ Definition b2n (b : bool) : nat := if b then 1 else 0.
 
 Definition rank (p : phase) : nat :=
   match p with
-  | PU0 _ => 6 | PU1 _ _ => 5 | PU2 _ _ => 3 | PU3 _ => 2 | PParked _ => 1
+  | PU0 _ => 8 | PU1 _ _ => 7 | PU2 _ _ => 5 | PU3 _ => 4 | PParked _ => 3
   | PDone _ | PGone => 0
   end.
 
 Definition stale (calls snap : nat) : nat := if Nat.eqb snap calls then 0 else 1.
 
-(* a wake-up of its own that c will consume without touching the shared tokens *)
-Definition soa (calls : nat) (p : phase) : nat :=
+(* pending wake-ups held by a consumer: woken and not yet run, or its Init
+   signal is older than the last notify_waiters *)
+Definition ctk (calls : nat) (p : phase) : nat :=
   match p with
-  | PParked NAll => 1
+  | PParked NOne | PParked NAll => 1
   | PU1 sn _ | PU2 sn _ | PU3 sn => stale calls sn
   | _ => 0
   end.
 
+(* Weight of a consumer: the steps it can still take by itself, one round
+   (6) per wake-up it holds.  The ranks satisfy U0 > U1 > 6 (a consumer dropped
+   at U1 pays for the notify_one of its guard) and Parked + 6 > U0. *)
+Definition cw (calls : nat) (cs : cons) : nat := rank (cphase cs) + 6 * ctk calls (cphase cs).
+
 Definition isOne (cs : cons) : nat :=
   match cphase cs with PParked NOne => 1 | _ => 0 end.
 
-Definition own (calls : nat) (p : phase) : nat := rank p + 6 * soa calls p.
+(* Shared notifications (permit / woken waiter) a consumer may still RELEASE to
+   the others.  Old code: only a consumer woken by notify_one that is dropped
+   before it runs (forwarding).  Repaired code: in addition every consumer that
+   can still reach U1 without consuming a shared notification, because it may
+   be dropped there and its guard then calls notify_one. *)
+Definition gen (ho : bool) (calls : nat) (cs : cons) : nat :=
+  if ho then
+    match cphase cs with
+    | PU0 _ | PU1 _ _ => 1
+    | PU2 sn _ | PU3 sn => stale calls sn
+    | PParked NOne | PParked NAll => 1
+    | _ => 0
+    end
+  else isOne cs.
 
-Definition ownc (s : state) (c : nat) : nat :=
-  match get s c with Some cs => own (calls s) (cphase cs) | None => 6 end.
+(* What is left of the weight of consumer c once the part that is already
+   counted in [gen] is taken out (the subtraction is exact: [own_gen]). *)
+Definition own (ho : bool) (calls : nat) (cs : cons) : nat := cw calls cs - 6 * gen ho calls cs.
 
-Definition ntk (s : state) : nat := b2n (permit s) + sumf isOne (conss s).
-
-(* The bound: own steps consumer c can still take once the subscription is deleted. *)
-Definition hang_bound (s : state) (c : nat) : nat := ownc s c + 6 * ntk s.
-
-Lemma ntk_setc s c f cs :
-  get s c = Some cs -> ntk (setc c f s) + isOne cs = ntk s + isOne (f cs).
+Lemma own_gen ho calls cs : own ho calls cs + 6 * gen ho calls cs = cw calls cs.
 Proof.
-  intros G. unfold ntk. cbn. pose proof (sumf_upd isOne (conss s) c f cs G). lia.
+  unfold own, gen, cw, isOne.
+  destruct ho; destruct (cphase cs) as [| | | |[]| |]; cbn [rank ctk]; unfold stale;
+    try destruct (Nat.eqb _ _); lia.
 Qed.
 
-Lemma isOne_wake_le cs : isOne (wake NOne cs) <= isOne cs + 1.
-Proof. unfold wake, isOne. destruct (cphase cs) as [| | | |[]| |] eqn:E; cbn; rewrite ?E; lia. Qed.
+Lemma gen_le1 ho calls cs : gen ho calls cs <= 1.
+Proof.
+  unfold gen, isOne, stale.
+  destruct ho; destruct (cphase cs) as [| | | |[]| |]; try destruct (Nat.eqb _ _); lia.
+Qed.
 
-Lemma ntk_notify_one s : ntk (notify_one s) <= ntk s + 1.
+Definition ownc (ho : bool) (s : state) (c : nat) : nat :=
+  match get s c with Some cs => own ho (calls s) cs | None => 8 end.
+
+Definition ntk (ho : bool) (s : state) : nat := b2n (permit s) + sumf (gen ho (calls s)) (conss s).
+
+(* The bound: own steps consumer c can still take once the subscription is
+   deleted.  By [own_gen] this is
+     cw(c) + 6 * (permit + sum over the OTHER consumers of gen). *)
+Definition hang_bound (ho : bool) (s : state) (c : nat) : nat := ownc ho s c + 6 * ntk ho s.
+
+Lemma ntk_setc ho s c f cs :
+  get s c = Some cs ->
+  ntk ho (setc c f s) + gen ho (calls s) cs = ntk ho s + gen ho (calls s) (f cs).
+Proof.
+  intros G. unfold ntk. cbn. pose proof (sumf_upd (gen ho (calls s)) (conss s) c f cs G). lia.
+Qed.
+
+Lemma gen_wake_le ho calls cs : gen ho calls (wake NOne cs) <= gen ho calls cs + 1.
+Proof.
+  unfold wake, gen, isOne.
+  destruct ho; destruct (cphase cs) as [| | | |[]| |] eqn:E; cbn [cphase with_phase]; rewrite ?E; lia.
+Qed.
+
+Lemma ntk_notify_one ho s : ntk ho (notify_one s) <= ntk ho s + 1.
 Proof.
   unfold notify_one. destruct (waiters s) as [|w ws].
   - unfold ntk. cbn. destruct (permit s); cbn; lia.
-  - change (ntk (set_waiters ws (setc w (wake NOne) s))) with (ntk (setc w (wake NOne) s)).
+  - change (ntk ho (set_waiters ws (setc w (wake NOne) s))) with (ntk ho (setc w (wake NOne) s)).
     destruct (get s w) as [cs|] eqn:G.
-    + pose proof (ntk_setc s w (wake NOne) cs G). pose proof (isOne_wake_le cs). lia.
+    + pose proof (ntk_setc ho s w (wake NOne) cs G). pose proof (gen_wake_le ho (calls s) cs). lia.
     + unfold ntk. cbn. rewrite sumf_upd_none; auto. lia.
 Qed.
 
-Lemma own_wake calls n cs : n <> NAll -> own calls (cphase (wake n cs)) = own calls (cphase cs).
+Lemma own_wake ho calls cs : own ho calls (wake NOne cs) = own ho calls cs.
 Proof.
-  intros Hn. unfold wake. destruct (cphase cs) as [| | | |[]| |] eqn:E; cbn; rewrite ?E; auto.
-  destruct n; auto. congruence.
+  unfold wake, own, cw, gen, isOne.
+  destruct ho; destruct (cphase cs) as [| | | |[]| |] eqn:E; cbn [cphase with_phase]; rewrite ?E; reflexivity.
 Qed.
 
-Lemma own_deliver calls r cs : own calls (cphase (deliver_f r cs)) = own calls (cphase cs).
+Lemma own_deliver ho calls r cs : own ho calls (deliver_f r cs) = own ho calls cs.
 Proof.
-  unfold deliver_f. destruct (cphase cs) as [| |sn [|]| | | |] eqn:E; cbn; rewrite ?E; auto.
+  unfold deliver_f, own, cw, gen, isOne.
+  destruct ho; destruct (cphase cs) as [| |sn [|]| | | |] eqn:E; cbn [cphase with_phase]; rewrite ?E; reflexivity.
 Qed.
 
-Lemma ownc_setc_other s c0 f c : c <> c0 -> ownc (setc c0 f s) c = ownc s c.
+Lemma gen_deliver ho calls r cs : gen ho calls (deliver_f r cs) = gen ho calls cs.
+Proof.
+  unfold deliver_f, gen, isOne.
+  destruct ho; destruct (cphase cs) as [| |sn [|]| | | |] eqn:E; cbn [cphase with_phase]; rewrite ?E; reflexivity.
+Qed.
+
+Lemma ownc_setc_other ho s c0 f c : c <> c0 -> ownc ho (setc c0 f s) c = ownc ho s c.
 Proof. intros N. unfold ownc. rewrite get_setc_other; auto. Qed.
 
-Lemma ownc_setc_same s c f cs :
-  get s c = Some cs -> ownc (setc c f s) c = own (calls s) (cphase (f cs)).
+Lemma ownc_setc_same ho s c f cs :
+  get s c = Some cs -> ownc ho (setc c f s) c = own ho (calls s) (f cs).
 Proof. intros G. unfold ownc. rewrite (get_setc_same s c f cs G). reflexivity. Qed.
 
-Lemma ownc_setc_inv s c0 f c :
-  (forall x, own (calls s) (cphase (f x)) = own (calls s) (cphase x)) ->
-  ownc (setc c0 f s) c = ownc s c.
+Lemma ownc_setc_inv ho s c0 f c :
+  (forall x, own ho (calls s) (f x) = own ho (calls s) x) ->
+  ownc ho (setc c0 f s) c = ownc ho s c.
 Proof.
   intros Hf. destruct (Nat.eq_dec c c0) as [->|N]; [|apply ownc_setc_other; auto].
   unfold ownc. destruct (get s c0) as [cs|] eqn:G.
@@ -1491,45 +1687,42 @@ Proof.
   - unfold get, setc in *; cbn. rewrite nth_upd_same, G. reflexivity.
 Qed.
 
-Lemma ownc_ext s s' c : conss s' = conss s -> calls s' = calls s -> ownc s' c = ownc s c.
+Lemma ownc_ext ho s s' c : conss s' = conss s -> calls s' = calls s -> ownc ho s' c = ownc ho s c.
 Proof. unfold ownc, get. intros -> ->. reflexivity. Qed.
 
-Lemma ownc_notify_one s c : ownc (notify_one s) c = ownc s c.
+Lemma ownc_notify_one ho s c : ownc ho (notify_one s) c = ownc ho s c.
 Proof.
   unfold notify_one. destruct (waiters s) as [|w ws].
   - apply ownc_ext; reflexivity.
   - rewrite ownc_ext with (s := setc w (wake NOne) s); try reflexivity.
-    apply ownc_setc_inv. intros x. apply own_wake. discriminate.
+    apply ownc_setc_inv. intros x. apply own_wake.
 Qed.
 
-Lemma ownc_deliver s c0 r c : ownc (deliver c0 r s) c = ownc s c.
+Lemma ownc_deliver ho s c0 r c : ownc ho (deliver c0 r s) c = ownc ho s c.
 Proof. apply ownc_setc_inv. intros x. apply own_deliver. Qed.
 
-Lemma ownc_close l : forall s c, ownc (fold_left close_req l s) c = ownc s c.
+Lemma ownc_close ho l : forall s c, ownc ho (fold_left close_req l s) c = ownc ho s c.
 Proof.
   induction l as [|r l IH]; intros s c; cbn [fold_left]; auto. rewrite IH.
   destruct r; cbn [close_req]; auto. apply ownc_deliver.
 Qed.
 
-Lemma ntk_ext s s' : conss s' = conss s -> permit s' = permit s -> ntk s' = ntk s.
-Proof. unfold ntk. intros -> ->. reflexivity. Qed.
+Lemma ntk_ext ho s s' :
+  conss s' = conss s -> permit s' = permit s -> calls s' = calls s -> ntk ho s' = ntk ho s.
+Proof. unfold ntk. intros -> -> ->. reflexivity. Qed.
 
-Lemma isOne_deliver r cs : isOne (deliver_f r cs) = isOne cs.
-Proof.
-  unfold deliver_f, isOne. destruct (cphase cs) as [| |sn [|]| | | |] eqn:E; cbn; rewrite ?E; auto.
-Qed.
-
-Lemma ntk_setc_inv s c f : (forall x, isOne (f x) = isOne x) -> ntk (setc c f s) = ntk s.
+Lemma ntk_setc_inv ho s c f :
+  (forall x, gen ho (calls s) (f x) = gen ho (calls s) x) -> ntk ho (setc c f s) = ntk ho s.
 Proof.
   intros Hf. destruct (get s c) as [cs|] eqn:G.
-  - pose proof (ntk_setc s c f cs G). rewrite Hf in H. lia.
+  - pose proof (ntk_setc ho s c f cs G) as E. rewrite Hf in E. lia.
   - unfold ntk. cbn. rewrite sumf_upd_none; auto.
 Qed.
 
-Lemma ntk_deliver s c r : ntk (deliver c r s) = ntk s.
-Proof. apply ntk_setc_inv. intros x. apply isOne_deliver. Qed.
+Lemma ntk_deliver ho s c r : ntk ho (deliver c r s) = ntk ho s.
+Proof. apply ntk_setc_inv. intros x. apply gen_deliver. Qed.
 
-Lemma ntk_close l : forall s, ntk (fold_left close_req l s) = ntk s.
+Lemma ntk_close ho l : forall s, ntk ho (fold_left close_req l s) = ntk ho s.
 Proof.
   induction l as [|r l IH]; intros s; cbn [fold_left]; auto. rewrite IH.
   destruct r; cbn [close_req]; auto. apply ntk_deliver.
@@ -1541,60 +1734,82 @@ Definition own_step (l : label) (c : nat) : nat :=
   | _ => 0
   end.
 
-(* local move of consumer c0: c0's own potential drops by at least d + 6 * (tokens it gains) *)
-Lemma hang_local s c0 cs f c (d : nat) :
+(* In the repaired code every consumer that arrives may be dropped at U1 and
+   then releases one notification: an arrival is worth one more round. *)
+Definition arr (ho : bool) (l : label) : nat :=
+  match l with LArrive _ _ => if ho then 6 else 0 | _ => 0 end.
+
+(* local move of consumer c0 that loses at least d of its weight and does not
+   gain anything it could release *)
+Lemma hang_local ho s c0 cs f c (d : nat) :
   get s c0 = Some cs ->
-  isOne (f cs) <= isOne cs ->
-  own (calls s) (cphase (f cs)) + 6 * isOne (f cs) + d <= own (calls s) (cphase cs) + 6 * isOne cs ->
-  hang_bound (setc c0 f s) c + (if Nat.eqb c0 c then d else 0) <= hang_bound s c.
+  gen ho (calls s) (f cs) <= gen ho (calls s) cs ->
+  cw (calls s) (f cs) + d <= cw (calls s) cs ->
+  hang_bound ho (setc c0 f s) c + (if Nat.eqb c0 c then d else 0) <= hang_bound ho s c.
 Proof.
-  intros G H1 Hd. unfold hang_bound. pose proof (ntk_setc s c0 f cs G) as N.
+  intros G H1 Hd. unfold hang_bound. pose proof (ntk_setc ho s c0 f cs G) as N.
+  pose proof (own_gen ho (calls s) cs) as O1. pose proof (own_gen ho (calls s) (f cs)) as O2.
   destruct (Nat.eqb_spec c0 c) as [->|Ne].
-  - rewrite (ownc_setc_same s c f cs G). unfold ownc. rewrite G. lia.
+  - rewrite (ownc_setc_same ho s c f cs G). unfold ownc. rewrite G. lia.
   - rewrite ownc_setc_other; auto. lia.
 Qed.
 
-Lemma hang_bound_ext s s' c :
-  conss s' = conss s -> calls s' = calls s -> permit s' = permit s -> hang_bound s' c = hang_bound s c.
+Lemma hang_bound_ext ho s s' c :
+  conss s' = conss s -> calls s' = calls s -> permit s' = permit s ->
+  hang_bound ho s' c = hang_bound ho s c.
 Proof.
-  intros E1 E2 E3. unfold hang_bound. rewrite (ownc_ext s s' c E1 E2), (ntk_ext s s' E1 E3). reflexivity.
+  intros E1 E2 E3. unfold hang_bound. rewrite (ownc_ext ho s s' c E1 E2), (ntk_ext ho s s' E1 E3 E2).
+  reflexivity.
 Qed.
 
 Lemma rank_alive p : alive p = true -> 1 <= rank p.
 Proof. destruct p; cbn; intros; try discriminate; lia. Qed.
 
-Lemma hang_finish s c0 cs f c :
+Lemma hang_leave ho s c0 cs f c :
   get s c0 = Some cs -> alive (cphase cs) = true ->
   alive (cphase (f cs)) = false ->
-  hang_bound (finish (cphase cs) c0 f s) c + (if Nat.eqb c0 c then 1 else 0) <= hang_bound s c.
+  hang_bound ho (leave ho (cphase cs) c0 f s) c + (if Nat.eqb c0 c then 1 else 0) <= hang_bound ho s c.
 Proof.
   intros G Al Hf.
-  assert (O0 : own (calls s) (cphase (f cs)) = 0) by (destruct (cphase (f cs)); cbn in *; auto; discriminate).
-  assert (I0 : isOne (f cs) = 0) by (unfold isOne; destruct (cphase (f cs)); cbn in *; auto; discriminate).
+  assert (C0 : cw (calls s) (f cs) = 0) by (unfold cw; destruct (cphase (f cs)); cbn in *; auto; discriminate).
+  assert (G0 : gen ho (calls s) (f cs) = 0).
+  { unfold gen, isOne. destruct ho; destruct (cphase (f cs)); cbn in *; auto; discriminate. }
   pose proof (rank_alive _ Al) as Rk.
-  assert (L : hang_bound (setc c0 f s) c + (if Nat.eqb c0 c then 1 else 0) <= hang_bound s c).
-  { apply hang_local with (cs := cs); auto; [lia|]. rewrite O0, I0. unfold own. lia. }
-  unfold finish. destruct (cphase cs) as [| | | |[]| |] eqn:Ph; auto.
-  (* Waiting(one): forwarded *)
-  unfold hang_bound. rewrite ownc_notify_one.
-  pose proof (ntk_notify_one (setc c0 f s)) as N1. pose proof (ntk_setc s c0 f cs G) as N2.
-  rewrite I0 in N2. unfold isOne in N2. rewrite Ph in N2.
-  destruct (Nat.eqb_spec c0 c) as [->|Ne].
-  - rewrite (ownc_setc_same s c f cs G), O0. unfold ownc. rewrite G, Ph. cbn. lia.
-  - rewrite ownc_setc_other; auto. lia.
+  assert (L : hang_bound ho (setc c0 f s) c + (if Nat.eqb c0 c then 1 else 0) <= hang_bound ho s c).
+  { apply hang_local with (cs := cs); auto; [lia|]. rewrite C0. unfold cw. lia. }
+  (* the cases with a notify_one: it is paid by what the consumer could release *)
+  assert (NO : gen ho (calls s) cs = 1 ->
+               hang_bound ho (notify_one (setc c0 f s)) c + (if Nat.eqb c0 c then 1 else 0)
+               <= hang_bound ho s c).
+  { intros G1. unfold hang_bound. rewrite ownc_notify_one.
+    pose proof (ntk_notify_one ho (setc c0 f s)) as N1. pose proof (ntk_setc ho s c0 f cs G) as N2.
+    pose proof (own_gen ho (calls s) cs) as O1. pose proof (own_gen ho (calls s) (f cs)) as O2.
+    unfold cw in O1 at 1. rewrite C0 in O2. rewrite G0 in N2. rewrite G1 in *.
+    destruct (Nat.eqb_spec c0 c) as [->|Ne].
+    - rewrite (ownc_setc_same ho s c f cs G). unfold ownc. rewrite G.
+      destruct (cphase cs) as [| | | |[]| |]; cbn [rank ctk] in *; lia.
+    - rewrite ownc_setc_other; auto. lia. }
+  unfold leave, finish. destruct (cphase cs) as [|sn o| | |[]| |] eqn:Ph; auto.
+  - destruct ho; auto. apply NO. unfold gen. rewrite Ph. reflexivity.
+  - apply NO. unfold gen, isOne. rewrite Ph. destruct ho; reflexivity.
 Qed.
+
+Ltac eqb_cases :=
+  repeat match goal with |- context [Nat.eqb ?a ?b] => destruct (Nat.eqb_spec a b) end;
+  try contradiction; try congruence; try lia.
 
 Ltac hloc G Ph :=
   eapply Nat.le_trans; [|eapply hang_local with (d := 1); [exact G| |]];
   [cbn [own_step]; apply Nat.le_refl
-  |unfold isOne; cbn; lia
-  |unfold isOne, own; cbn; rewrite ?Ph; cbn; unfold stale; rewrite ?Nat.eqb_refl; try lia].
+  |unfold gen, isOne; cbn [cphase with_phase add_got]; rewrite ?Ph; unfold stale;
+   match goal with |- context [if ?b then _ else _] => is_var b; destruct b end; eqb_cases
+  |unfold cw; cbn [cphase with_phase add_got]; rewrite ?Ph; cbn [rank ctk]; unfold stale; eqb_cases].
 
-(* Once the subscription is deleted no step raises the potential of consumer c,
-   and every step of c itself lowers it. *)
-Lemma hang_step K s l s' c :
-  deleted s = true -> step K s l = Some s' ->
-  hang_bound s' c + own_step l c <= hang_bound s c.
+(* Once the subscription is deleted no step other than an arrival raises the
+   potential of consumer c, and every step of c itself lowers it. *)
+Lemma hang_step ho K s l s' c :
+  deleted s = true -> step ho K s l = Some s' ->
+  hang_bound ho s' c + own_step l c <= hang_bound ho s c + arr ho l.
 Proof.
   intros Hd H. apply step_sspec in H.
   destruct H as [c0 m rest Ex Em Ed|r rest Ex Em Ed Ip|n rest Ex Em Ed|c0 m rest Ex Em Ed
@@ -1602,92 +1817,135 @@ Proof.
                 |c0 cs o G Ph|c0 cs snap o G Ph Ex|c0 cs snap o G Ph Ex L|c0 cs snap G Ph|c0 cs snap G Ph
                 |c0 cs snap k G Ph Ek|c0 cs snap k G Ph Ek|c0 cs snap G Ph Ep|c0 cs snap G Ph Ep Ec
                 |c0 cs snap G Ph Ep Ec|c0 cs n G Ph Hn|c0 cs Ed G Al Hk|r Ip Ex L|j Ex Ed|j Ex Ed|k m
-                |c0 cs G Al|c0 cs G Al Ek]; try congruence; cbn [own_step].
+                |c0 cs G Al|c0 cs G Al Ek]; try congruence; cbn [own_step arr]; rewrite ?Nat.add_0_r.
   - unfold hang_bound. rewrite ownc_deliver, ntk_deliver.
-    change (ownc s c + 6 * ntk s + 0 <= ownc s c + 6 * ntk s). lia.
-  - rewrite (hang_bound_ext s); auto. lia.
-  - rewrite (hang_bound_ext (fold_left close_req (mailbox s) s)); try reflexivity.
+    change (ownc ho s c + 6 * ntk ho s <= ownc ho s c + 6 * ntk ho s). lia.
+  - rewrite (hang_bound_ext ho s); auto.
+  - rewrite (hang_bound_ext ho (fold_left close_req (mailbox s) s)); try reflexivity.
     unfold hang_bound. rewrite ownc_close, ntk_close. lia.
   - hloc G Ph.
-  - hloc G Ph.
-  - rewrite (hang_bound_ext (setc c0 (with_phase (PU2 snap None)) s)); try reflexivity. hloc G Ph.
+  - apply hang_leave; auto; rewrite Ph; reflexivity.
+  - rewrite (hang_bound_ext ho (setc c0 (with_phase (PU2 snap None)) s)); try reflexivity. hloc G Ph.
   - hloc G Ph.
   - hloc G Ph.
   - hloc G Ph.
   - hloc G Ph.
   - (* poll takes the permit *)
-    unfold hang_bound. pose proof (ntk_setc s c0 (with_phase (PU0 true)) cs G) as N.
-    unfold isOne in N. cbn in N. rewrite Ph in N.
-    assert (E : ntk (set_permit false (setc c0 (with_phase (PU0 true)) s)) + 1
-                = ntk (setc c0 (with_phase (PU0 true)) s)).
+    unfold hang_bound. pose proof (ntk_setc ho s c0 (with_phase (PU0 true)) cs G) as N.
+    pose proof (own_gen ho (calls s) cs) as O1.
+    pose proof (own_gen ho (calls s) (with_phase (PU0 true) cs)) as O2.
+    pose proof (gen_le1 ho (calls s) (with_phase (PU0 true) cs)) as G1.
+    unfold cw in O1, O2. cbn [cphase with_phase] in O2. rewrite Ph in O1. cbn [rank ctk] in O1, O2.
+    assert (E : ntk ho (set_permit false (setc c0 (with_phase (PU0 true)) s)) + 1
+                = ntk ho (setc c0 (with_phase (PU0 true)) s)).
     { unfold ntk. cbn. rewrite Ep. cbn. lia. }
     rewrite ownc_ext with (s := setc c0 (with_phase (PU0 true)) s); try reflexivity.
     destruct (Nat.eqb_spec c0 c) as [->|Ne].
-    + rewrite (ownc_setc_same s c _ cs G). unfold ownc. rewrite G, Ph. unfold own.
-      cbn [rank soa cphase with_phase]. lia.
+    + rewrite (ownc_setc_same ho s c _ cs G). unfold ownc. rewrite G. lia.
     + rewrite ownc_setc_other; auto. lia.
-  - hloc G Ph. destruct (Nat.eqb_spec snap (calls s)); [contradiction|lia].
-  - rewrite (hang_bound_ext (setc c0 (with_phase (PParked NNone)) s)); try reflexivity. hloc G Ph.
-  - hloc G Ph. destruct n; try contradiction; lia.
-  - apply hang_finish; auto.
-  - rewrite (hang_bound_ext s); auto. lia.
+  - hloc G Ph.
+  - rewrite (hang_bound_ext ho (setc c0 (with_phase (PParked NNone)) s)); try reflexivity. hloc G Ph.
+  - hloc G Ph; destruct n; try contradiction; try lia.
+  - apply hang_leave; auto. apply suspended_alive; auto.
+  - rewrite (hang_bound_ext ho s); auto.
   - lia.
-  - unfold hang_bound, ntk, ownc. cbn. rewrite sumf_app. cbn.
+  - unfold hang_bound, ntk, ownc. cbn [permit calls conss set_conss]. rewrite sumf_app. cbn [sumf].
     assert (E : match get (set_conss (conss s ++ [new_cons k m]) s) c with
-                | Some cs => own (calls s) (cphase cs) | None => 6 end
-                <= match get s c with Some cs => own (calls s) (cphase cs) | None => 6 end).
+                | Some cs => own ho (calls s) cs | None => 8 end
+                <= match get s c with Some cs => own ho (calls s) cs | None => 8 end).
     { destruct (get (set_conss (conss s ++ [new_cons k m]) s) c) as [x|] eqn:G.
-      - apply get_arrive_inv in G. destruct G as [G|(_ & -> & G)]; rewrite G; cbn; lia.
+      - apply get_arrive_inv in G. destruct G as [G|(_ & -> & G)]; rewrite G; [lia|].
+        pose proof (own_gen ho (calls s) (new_cons k m)) as O. unfold cw in O.
+        cbn [cphase new_cons rank ctk] in O. lia.
       - destruct (get s c) as [y|] eqn:Gy; [|lia].
         rewrite (get_arrive s _ c y Gy) in G. discriminate. }
-    lia.
-  - apply hang_finish; auto.
-  - apply hang_finish; auto.
+    assert (E2 : gen ho (calls s) (new_cons k m) = if ho then 1 else 0)
+      by (unfold gen, isOne; destruct ho; reflexivity).
+    rewrite E2. destruct ho; lia.
+  - apply hang_leave; auto. apply suspended_alive; auto.
+  - apply hang_leave; auto. apply suspended_alive; auto.
 Qed.
 
 Fixpoint count_own (c : nat) (ls : list label) : nat :=
   match ls with [] => 0 | l :: t => own_step l c + count_own c t end.
 
+Fixpoint count_arr (ho : bool) (ls : list label) : nat :=
+  match ls with [] => 0 | l :: t => arr ho l + count_arr ho t end.
+
 (* Along ANY run (environment steps included, whatever select! picks) from a
    state of a deleted subscription, consumer c takes at most [hang_bound s c]
-   steps of its own. *)
-Theorem C12_no_hang K ls : forall s s' c,
-  deleted s = true -> run K s ls = Some s' ->
-  hang_bound s' c + count_own c ls <= hang_bound s c.
+   steps of its own -- plus, in the repaired code, one round (6 steps) for
+   every consumer that ARRIVES during the run: such a consumer can be dropped
+   while it waits for room in the mailbox and its guard then wakes somebody.
+   (This is not an artefact: arrive, U0, U1, deleted branch, and the permit is
+   set again; a consumer whose select! keeps picking the messages branch can
+   be fed for ever by newcomers.  Without arrivals the old bound holds.) *)
+Theorem C12_no_hang ho K ls : forall s s' c,
+  deleted s = true -> run ho K s ls = Some s' ->
+  hang_bound ho s' c + count_own c ls <= hang_bound ho s c + count_arr ho ls.
 Proof.
   induction ls as [|l ls IH]; intros s s' c Hd H; cbn in H.
   - injection H as <-. cbn. lia.
-  - destruct (step K s l) as [s1|] eqn:E; [|discriminate].
-    pose proof (hang_step K s l s1 c Hd E). pose proof (step_deleted K s l s1 E Hd) as Hd1.
-    specialize (IH s1 s' c Hd1 H). cbn [count_own]. lia.
+  - destruct (step ho K s l) as [s1|] eqn:E; [|discriminate].
+    pose proof (hang_step ho K s l s1 c Hd E). pose proof (step_deleted ho K s l s1 E Hd) as Hd1.
+    specialize (IH s1 s' c Hd1 H). cbn [count_own count_arr]. lia.
+Qed.
+
+Lemma count_arr_false ls : count_arr false ls = 0.
+Proof. induction ls as [|l ls IH]; cbn [count_arr]; auto. rewrite IH. destruct l; reflexivity. Qed.
+
+Lemma count_arr_none ho ls : (forall k m, ~ In (LArrive k m) ls) -> count_arr ho ls = 0.
+Proof.
+  induction ls as [|l ls IH]; intros Hn; cbn [count_arr]; auto. rewrite IH.
+  - destruct l; cbn [arr]; auto. exfalso. eapply Hn. left. reflexivity.
+  - intros k m I. eapply Hn. right. exact I.
+Qed.
+
+(* the old code: the bound as it was *)
+Corollary C12_no_hang_old K ls s s' c :
+  deleted s = true -> run false K s ls = Some s' ->
+  hang_bound false s' c + count_own c ls <= hang_bound false s c.
+Proof.
+  intros Hd H. pose proof (C12_no_hang false K ls s s' c Hd H) as B.
+  rewrite count_arr_false in B. lia.
+Qed.
+
+(* both versions: nobody arrives any more *)
+Corollary C12_no_hang_closed ho K ls s s' c :
+  deleted s = true -> run ho K s ls = Some s' -> (forall k m, ~ In (LArrive k m) ls) ->
+  hang_bound ho s' c + count_own c ls <= hang_bound ho s c.
+Proof.
+  intros Hd H Hn. pose proof (C12_no_hang ho K ls s s' c Hd H) as B.
+  rewrite (count_arr_none ho ls Hn) in B. lia.
 Qed.
 
 Lemma sumf_le g n l : (forall x, g x <= n) -> sumf g l <= n * length l.
 Proof. intros Hg. induction l as [|x t IH]; cbn; [lia|]. specialize (Hg x). lia. Qed.
 
-(* ... and the bound is small: 11 for c itself plus 6 per pending notify_one
-   notification (the permit and the consumers woken by notify_one but not yet run). *)
-Lemma hang_bound_le s c : hang_bound s c <= 11 + 6 * (1 + length (conss s)).
+(* ... and the bound is small: 13 for c itself plus 6 per notification that is
+   pending or can still be released (the permit and one per consumer). *)
+Lemma hang_bound_le ho s c : hang_bound ho s c <= 13 + 6 * (1 + length (conss s)).
 Proof.
   unfold hang_bound, ntk, ownc.
-  assert (A : sumf isOne (conss s) <= 1 * length (conss s)).
-  { apply sumf_le. intros x. unfold isOne. destruct (cphase x) as [| | | |[]| |]; lia. }
-  assert (B : match get s c with Some cs => own (calls s) (cphase cs) | None => 6 end <= 11).
-  { destruct (get s c) as [cs|]; [|lia]. unfold own.
-    destruct (cphase cs) as [| | | |[]| |]; cbn [rank soa]; unfold stale; try destruct (Nat.eqb _ _); lia. }
+  assert (A : sumf (gen ho (calls s)) (conss s) <= 1 * length (conss s)).
+  { apply sumf_le. intros x. apply gen_le1. }
+  assert (B : match get s c with Some cs => own ho (calls s) cs | None => 8 end <= 13).
+  { destruct (get s c) as [cs|]; [|lia]. pose proof (own_gen ho (calls s) cs) as O. unfold cw in O.
+    destruct (cphase cs) as [| | | |[]| |]; cbn [rank ctk] in O; unfold stale in O;
+      try destruct (Nat.eqb _ _); lia. }
   destruct (permit s); cbn [b2n]; lia.
 Qed.
 
 (* Progress: a consumer of a deleted subscription that has not finished can
    take a step of its own, unless it waits for the actor, and then the actor
    can take its last step (exit), which fails every pending and later Pull. *)
-Theorem C12_progress K s c cs :
-  reachable K s -> deleted s = true -> get s c = Some cs -> alive (cphase cs) = true ->
-  (exists s', step K s (LCons c) = Some s') \/
-  (exists s', step K s (LDelExit c) = Some s') \/
-  (exited s = false /\ exists s', step K s LExit = Some s').
+Theorem C12_progress ho K s c cs :
+  reachable ho K s -> deleted s = true -> get s c = Some cs -> alive (cphase cs) = true ->
+  (exists s', step ho K s (LCons c) = Some s') \/
+  (exists s', step ho K s (LDelExit c) = Some s') \/
+  (exited s = false /\ exists s', step ho K s LExit = Some s').
 Proof.
-  intros R Hd G Al. pose proof (actor_wf K s R) as SW.
+  intros R Hd G Al. pose proof (actor_wf ho K s R) as SW.
   destruct (exited s) eqn:Ex.
   - destruct (sw_exit K s SW Ex) as [_ Em]. cbn [step]. unfold cons_step, del_exit. rewrite G, Hd. cbn [negb].
     destruct (cphase cs) as [o|sn o|sn [[[|k]|]|]|sn|n|o|] eqn:Ph; try discriminate; eauto.
@@ -1702,16 +1960,7 @@ Qed.
 (* ------------------------------------------------------------------ *)
 (* F. Termination of internal activity                                 *)
 
-(* pending wake-ups held by a consumer: woken and not yet run, or its Init
-   signal is older than the last notify_waiters *)
-Definition ctk (calls : nat) (p : phase) : nat :=
-  match p with
-  | PParked NOne | PParked NAll => 1
-  | PU1 sn _ | PU2 sn _ | PU3 sn => stale calls sn
-  | _ => 0
-  end.
-
-Definition cw (calls : nat) (cs : cons) : nat := rank (cphase cs) + 6 * ctk calls (cphase cs).
+(* [ctk] and [cw] are defined above, with the no-hang bound. *)
 
 Definition rw (r : req) : nat :=
   match r with
@@ -1778,16 +2027,21 @@ Proof.
   destruct r; cbn [close_req]; auto. apply Phi_deliver.
 Qed.
 
-Lemma Phi_finish s c cs f :
+Lemma Phi_leave ho s c cs f :
   get s c = Some cs -> alive (cphase cs) = true -> alive (cphase (f cs)) = false ->
-  Phi (finish (cphase cs) c f s) < Phi s.
+  Phi (leave ho (cphase cs) c f s) < Phi s.
 Proof.
   intros G Al Hf. pose proof (Phi_setc s c f cs G) as E. pose proof (rank_alive _ Al) as Rk.
   assert (Z : cw (calls s) (f cs) = 0) by (unfold cw; destruct (cphase (f cs)); cbn in *; auto; discriminate).
-  rewrite Z in E. unfold cw in E. unfold finish.
-  destruct (cphase cs) as [| | | |[]| |] eqn:Ph;
+  rewrite Z in E. unfold cw in E. unfold leave, finish.
+  destruct (cphase cs) as [|sn o| | |[]| |] eqn:Ph; cbv zeta;
     try (change (Phi (setc c f s) < Phi s); cbn [rank ctk] in *; lia).
-  pose proof (Phi_notify_one (setc c f s)). cbn [rank ctk] in *. lia.
+  - (* U1: the guard notifies in the repaired code; rank U1 = 7 pays for it *)
+    destruct ho.
+    + pose proof (Phi_notify_one (setc c f s)). cbn [rank ctk] in *. lia.
+    + change (Phi (setc c f s) < Phi s). cbn [rank ctk] in *. lia.
+  - (* Waiting(one): forwarded *)
+    pose proof (Phi_notify_one (setc c f s)). cbn [rank ctk] in *. lia.
 Qed.
 
 Ltac phloc G Ph :=
@@ -1798,8 +2052,8 @@ Ltac phloc G Ph :=
   end.
 
 (* Every internal step other than the (single) Delete turn lowers Phi. *)
-Lemma Phi_step K s l s' :
-  step K s l = Some s' -> internal l = true ->
+Lemma Phi_step ho K s l s' :
+  step ho K s l = Some s' -> internal l = true ->
   (deleted s = false /\ deleted s' = true) \/ (deleted s' = deleted s /\ Phi s' < Phi s).
 Proof.
   intros H Hi. apply step_sspec in H.
@@ -1840,7 +2094,7 @@ Proof.
     { ph. rewrite mailbox_close, exited_close, Ex. cbn [mw]. lia. }
     rewrite Phi_close in E. lia.
   - right. split; [reflexivity|]. phloc G Ph.
-  - right. split; [reflexivity|]. phloc G Ph.
+  - right. split; [fr; reflexivity|]. apply Phi_leave; auto. rewrite Ph. reflexivity.
   - right. split; [reflexivity|].
     assert (E0 : Phi (set_mailbox (mailbox s ++ [RPull c0 (cmax cs)]) (setc c0 (with_phase (PU2 snap None)) s))
                  = Phi (setc c0 (with_phase (PU2 snap None)) s) + 1).
@@ -1861,35 +2115,35 @@ Proof.
   - right. split; [reflexivity|].
     change (Phi (setc c0 (with_phase (PParked NNone)) s) < Phi s). phloc G Ph.
   - right. split; [reflexivity|]. phloc G Ph. destruct n; try contradiction; lia.
-  - right. split; [fr; reflexivity|]. apply Phi_finish; auto.
+  - right. split; [fr; reflexivity|]. apply Phi_leave; auto. apply suspended_alive; auto.
 Qed.
 
-Definition isucc (K : nat) (s' s : state) : Prop :=
-  exists l, internal l = true /\ step K s l = Some s'.
+Definition isucc (ho : bool) (K : nat) (s' s : state) : Prop :=
+  exists l, internal l = true /\ step ho K s l = Some s'.
 
 Definition dflag (s : state) : nat := if deleted s then 0 else 1.
 
 (* There is no infinite sequence of internal steps: quiescence is reached
    whenever the environment stops. *)
-Theorem internal_terminates K s : Acc (isucc K) s.
+Theorem internal_terminates ho K s : Acc (isucc ho K) s.
 Proof.
   remember (dflag s) as n eqn:En. remember (Phi s) as m eqn:Em. revert m s En Em.
   induction n as [n IHn] using lt_wf_ind. induction m as [m IHm] using lt_wf_ind.
   intros s En Em. constructor. intros s' (l & Hi & Hs).
-  destruct (Phi_step K s l s' Hs Hi) as [[D1 D2]|[D P]].
+  destruct (Phi_step ho K s l s' Hs Hi) as [[D1 D2]|[D P]].
   - apply (IHn (dflag s')) with (m := Phi s'); auto. unfold dflag in *. rewrite D1 in En. rewrite D2. lia.
   - apply (IHm (Phi s')); [lia| |reflexivity]. unfold dflag in *. rewrite D. assumption.
 Qed.
 
 (* While the deletion flag does not change, the number of internal steps is at most Phi. *)
-Theorem internal_run_bound K ls : forall s s',
-  forallb internal ls = true -> run K s ls = Some s' -> deleted s' = deleted s ->
+Theorem internal_run_bound ho K ls : forall s s',
+  forallb internal ls = true -> run ho K s ls = Some s' -> deleted s' = deleted s ->
   Phi s' + length ls <= Phi s.
 Proof.
   induction ls as [|l ls IH]; intros s s' Hi H Hd; cbn in *.
   - injection H as <-. lia.
   - apply andb_true_iff in Hi. destruct Hi as [Hl Hls].
-    destruct (step K s l) as [s1|] eqn:E; [|discriminate].
+    destruct (step ho K s l) as [s1|] eqn:E; [|discriminate].
     assert (D1 : deleted s1 = deleted s).
     { destruct (deleted s) eqn:Ds.
       - eapply step_deleted; eauto.
@@ -1897,16 +2151,19 @@ Proof.
         assert (deleted s' = true); [|congruence].
         clear - H Ds1. revert s1 s' H Ds1. induction ls as [|x ls IHl]; intros s1 s' H D; cbn in H.
         + injection H as <-. assumption.
-        + destruct (step K s1 x) as [s2|] eqn:E2; [|discriminate].
+        + destruct (step ho K s1 x) as [s2|] eqn:E2; [|discriminate].
           eapply IHl; eauto. eapply step_deleted; eauto. }
-    destruct (Phi_step K s l s1 E Hl) as [[A B]|[A B]]; [congruence|].
+    destruct (Phi_step ho K s l s1 E Hl) as [[A B]|[A B]]; [congruence|].
     assert (deleted s' = deleted s1) by congruence.
     specialize (IH s1 s' Hls H H0). lia.
 Qed.
 
 (* Spurious rounds.  A consumer starts a new round (goes back to U0) only by
-   consuming a pending notification, and only actor turns of notifying
-   requests create pending notifications, at most one per turn. *)
+   consuming a pending notification, and actor turns of notifying requests
+   create pending notifications, at most one per turn.  (The other sources are
+   the forwarding drop of a woken consumer and, in the repaired code, the drop
+   of a consumer at U1.)  In [restart_consumes], "rank <= 4" says: the consumer
+   is at U3 or parked. *)
 Definition pend (s : state) : nat :=
   b2n (permit s) + sumf (fun cs => ctk (calls s) (cphase cs)) (conss s).
 
@@ -1944,8 +2201,8 @@ Proof.
   destruct (cphase x) as [| |sn [|]| | | |] eqn:E; cbn [cphase with_phase]; rewrite ?E; reflexivity.
 Qed.
 
-Theorem restart_consumes K s c cs s' cs' o :
-  step K s (LCons c) = Some s' -> get s c = Some cs -> rank (cphase cs) <= 2 ->
+Theorem restart_consumes ho K s c cs s' cs' o :
+  step ho K s (LCons c) = Some s' -> get s c = Some cs -> rank (cphase cs) <= 4 ->
   get s' c = Some cs' -> cphase cs' = PU0 o ->
   o = true /\ pend s' + 1 <= pend s.
 Proof.
@@ -1972,8 +2229,8 @@ Proof.
       cbn [cphase with_phase ctk] in E; rewrite Ph in E; cbn [ctk] in E; lia.
 Qed.
 
-Theorem pend_turn K s s' r rest :
-  step K s LTurn = Some s' -> mailbox s = r :: rest -> deleted s' = deleted s ->
+Theorem pend_turn ho K s s' r rest :
+  step ho K s LTurn = Some s' -> mailbox s = r :: rest -> deleted s' = deleted s ->
   pend s' <= pend s + (if notifying r && negb (deleted s) then 1 else 0).
 Proof.
   intros H Em Hd. cbn [step] in H. unfold turn in H. destruct (exited s); [discriminate|].
@@ -1994,21 +2251,21 @@ Qed.
 (* ------------------------------------------------------------------ *)
 (* Executable quiescence check                                         *)
 
-Lemma quiescent_of_b K s : quiescentb K s = true -> quiescent K s.
+Lemma quiescent_of_b ho K s : quiescentb ho K s = true -> quiescent ho K s.
 Proof.
   unfold quiescentb. destruct (turn s) eqn:T; [discriminate|]. destruct (actor_exit s) eqn:X; [discriminate|].
   intros Hb l Hi. rewrite forallb_forall in Hb.
-  assert (Hc : forall c, cons_step K s c = None /\ del_exit s c = None).
+  assert (Hc : forall c, cons_step ho K s c = None /\ del_exit ho s c = None).
   { intros c. destruct (Nat.lt_ge_cases c (length (conss s))) as [L|L].
     - specialize (Hb c). rewrite in_seq in Hb. specialize (Hb ltac:(lia)).
-      destruct (cons_step K s c); [discriminate|]. destruct (del_exit s c); [discriminate|]. auto.
+      destruct (cons_step ho K s c); [discriminate|]. destruct (del_exit ho s c); [discriminate|]. auto.
     - assert (G : get s c = None) by (apply nth_error_None; assumption).
       unfold cons_step, del_exit. rewrite G. destruct (negb (deleted s)); auto. }
   destruct l; try discriminate; cbn [step]; auto; apply Hc.
 Qed.
 
 (* ------------------------------------------------------------------ *)
-(* B (continued). The unrestricted system DOES lose a wake-up          *)
+(* B (continued). The OLD code (ho = false) DOES lose a wake-up         *)
 
 (* a consumer pulls from an empty subscription and goes to sleep *)
 Definition park_seq (c : nat) : list label := [LCons c; LCons c; LTurn; LCons c; LCons c].
@@ -2030,17 +2287,17 @@ Definition lost_after : state :=
        [mkCons Unary 1 PGone false 0; mkCons Unary 1 (PParked NNone) false 0].
 
 Theorem C06_refuted_cancel_owing :
-  run 1 init lost_prefix = Some lost_before /\
+  run false 1 init lost_prefix = Some lost_before /\
   length (mailbox lost_before) = 1 /\                 (* the mailbox is full *)
   bad_drop lost_before (LCancel 0) = true /\          (* exactly the excluded step *)
-  run 1 lost_before [LCancel 0; LTurn] = Some lost_after /\
-  reachable 1 lost_after /\
+  run false 1 lost_before [LCancel 0; LTurn] = Some lost_after /\
+  reachable false 1 lost_after /\
   lost_wakeup lost_after /\                           (* a message, a sleeper, nothing pending *)
-  quiescent 1 lost_after /\                           (* and nothing will ever happen *)
+  quiescent false 1 lost_after /\                     (* and nothing will ever happen *)
   get lost_after 1 = Some (mkCons Unary 1 (PParked NNone) false 0).
 Proof.
-  assert (R1 : run 1 init lost_prefix = Some lost_before) by (vm_compute; reflexivity).
-  assert (R2 : run 1 lost_before [LCancel 0; LTurn] = Some lost_after) by (vm_compute; reflexivity).
+  assert (R1 : run false 1 init lost_prefix = Some lost_before) by (vm_compute; reflexivity).
+  assert (R2 : run false 1 lost_before [LCancel 0; LTurn] = Some lost_after) by (vm_compute; reflexivity).
   split; [exact R1|]. split; [reflexivity|]. split; [reflexivity|]. split; [exact R2|].
   split; [eapply run_reachable; [|exact R2]; eapply run_reachable; [constructor|exact R1]|].
   split; [|split; [apply quiescent_of_b; vm_compute; reflexivity|reflexivity]].
@@ -2053,9 +2310,9 @@ Qed.
 
 (* The same loss through the 300 s timer instead of a cancellation. *)
 Theorem C06_refuted_timeout_owing :
-  exists s, run 1 lost_before [LTimeout 0; LTurn] = Some s /\
+  exists s, run false 1 lost_before [LTimeout 0; LTurn] = Some s /\
             bad_drop lost_before (LTimeout 0) = true /\
-            lost_wakeup s /\ quiescent 1 s.
+            lost_wakeup s /\ quiescent false 1 s.
 Proof.
   exists (mkSt false [1] 0 1 0 false false []
             [mkCons Unary 1 (PDone OEmpty) true 0; mkCons Unary 1 (PParked NNone) false 0]).
@@ -2068,79 +2325,193 @@ Proof.
   destruct c; discriminate.
 Qed.
 
+(* ------------------------------------------------------------------ *)
+(* B (continued). The REPAIRED code (ho = true) on the same schedules   *)
+
+(* a woken consumer runs: U0, U1, sends its Pull, the actor answers, the
+   consumer sees the reply *)
+Definition serve_seq (c : nat) : list label := [LCons c; LCons c; LCons c; LTurn; LCons c].
+
+Definition fixed_after : state :=
+  mkSt false [] 0 1 0 false false []
+       [mkCons Unary 1 PGone false 0; mkCons Unary 1 (PParked NOne) false 0].
+
+Definition fixed_after_timeout : state :=
+  mkSt false [] 0 1 0 false false []
+       [mkCons Unary 1 (PDone OEmpty) true 0; mkCons Unary 1 (PParked NOne) false 0].
+
+(* The same prefix leads to the same state; the same cancellation now makes
+   the guard of consumer 0 call notify_one, which wakes consumer 1 (the oldest
+   waiter); consumer 1 runs and gets the message. *)
+Theorem C06_fixed_cancel_owing :
+  run true 1 init lost_prefix = Some lost_before /\
+  (exists s1, run true 1 lost_before [LCancel 0; LTurn] = Some s1 /\
+              phases s1 = [PGone; PParked NOne] /\ waiters s1 = [] /\ backlog s1 = 1 /\
+              ~ lost_wakeup s1) /\
+  exists s, run true 1 init (lost_prefix ++ [LCancel 0; LTurn] ++ serve_seq 1) = Some s /\
+            get s 1 = Some (mkCons Unary 1 (PDone (OMessages 1)) false 1) /\
+            backlog s = 0 /\ quiescent true 1 s.
+Proof.
+  assert (R1 : run true 1 init lost_prefix = Some lost_before) by (vm_compute; reflexivity).
+  split; [exact R1|]. split.
+  - assert (R2 : run true 1 lost_before [LCancel 0; LTurn] = Some fixed_after) by (vm_compute; reflexivity).
+    exists fixed_after. split; [exact R2|]. repeat split.
+    apply (C06_lost_wakeup_unreachable 1).
+    apply (run_reachable true 1 [LCancel 0; LTurn] lost_before); [|exact R2].
+    apply (run_reachable true 1 lost_prefix init); [constructor|exact R1].
+  - eexists. split; [vm_compute; reflexivity|]. repeat split.
+    apply quiescent_of_b. vm_compute. reflexivity.
+Qed.
+
+(* Likewise when the 300 s timer of consumer 0 fires instead. *)
+Theorem C06_fixed_timeout_owing :
+  (exists s1, run true 1 lost_before [LTimeout 0; LTurn] = Some s1 /\
+              phases s1 = [PDone OEmpty; PParked NOne] /\ waiters s1 = [] /\ backlog s1 = 1 /\
+              ~ lost_wakeup s1) /\
+  exists s, run true 1 init (lost_prefix ++ [LTimeout 0; LTurn] ++ serve_seq 1) = Some s /\
+            get s 1 = Some (mkCons Unary 1 (PDone (OMessages 1)) false 1) /\
+            backlog s = 0 /\ quiescent true 1 s.
+Proof.
+  assert (R1 : run true 1 init lost_prefix = Some lost_before) by (vm_compute; reflexivity).
+  split.
+  - assert (R2 : run true 1 lost_before [LTimeout 0; LTurn] = Some fixed_after_timeout)
+      by (vm_compute; reflexivity).
+    exists fixed_after_timeout. split; [exact R2|]. repeat split.
+    apply (C06_lost_wakeup_unreachable 1).
+    apply (run_reachable true 1 [LTimeout 0; LTurn] lost_before); [|exact R2].
+    apply (run_reachable true 1 lost_prefix init); [constructor|exact R1].
+  - eexists. split; [vm_compute; reflexivity|]. repeat split.
+    apply quiescent_of_b. vm_compute. reflexivity.
+Qed.
+
 (* Had consumer 0 been cancelled one step earlier (woken, not yet run), the
-   notification would have been forwarded to consumer 1. *)
-Example cancel_woken_is_forwarded :
+   notification would have been forwarded to consumer 1 (both versions). *)
+Example cancel_woken_is_forwarded ho :
   option_map (fun s => (phases s, waiters s))
-    (run 1 init ([LArrive Unary 1; LArrive Unary 1] ++ park_seq 0 ++ park_seq 1 ++
-                 [LEnq (RPost 1); LTurn; LCancel 0]))
+    (run ho 1 init ([LArrive Unary 1; LArrive Unary 1] ++ park_seq 0 ++ park_seq 1 ++
+                    [LEnq (RPost 1); LTurn; LCancel 0]))
   = Some ([PGone; PParked NOne], []).
-Proof. vm_compute. reflexivity. Qed.
+Proof. destruct ho; vm_compute; reflexivity. Qed.
+
+(* One step later (U0 right after the Ready poll) the future cannot be dropped:
+   the code runs synchronously into the send. *)
+Example no_drop_at_U0_owing ho :
+  run ho 1 init ([LArrive Unary 1; LArrive Unary 1] ++ park_seq 0 ++ park_seq 1 ++
+                 [LEnq (RPost 1); LTurn; LCons 0; LCancel 0]) = None /\
+  run ho 1 init ([LArrive Unary 1; LArrive Unary 1] ++ park_seq 0 ++ park_seq 1 ++
+                 [LEnq (RPost 1); LTurn; LCons 0; LTimeout 0]) = None.
+Proof. destruct ho; split; vm_compute; reflexivity. Qed.
+
+(* The guard fires unconditionally: a consumer that never consumed anything
+   and is cancelled while it waits for room leaves a surplus permit (repaired
+   code only); it costs the next consumer one empty pull. *)
+Example surplus_wakeup :
+  option_map (fun s => (permit s, phases s))
+    (run true 1 init [LArrive Unary 1; LEnq (RAck 0); LCons 0; LCancel 0])
+  = Some (true, [PGone]) /\
+  option_map (fun s => (permit s, phases s))
+    (run false 1 init [LArrive Unary 1; LEnq (RAck 0); LCons 0; LCancel 0])
+  = Some (false, [PGone]).
+Proof. split; vm_compute; reflexivity. Qed.
 
 (* ------------------------------------------------------------------ *)
-(* Concrete runs                                                       *)
+(* Concrete runs (the same in both versions)                           *)
 
-Definition obs (K : nat) (o : option state) :=
-  option_map (fun s => (permit s, waiters s, backlog s, phases s, quiescentb K s)) o.
+Definition obs (ho : bool) (K : nat) (o : option state) :=
+  option_map (fun s => (permit s, waiters s, backlog s, phases s, quiescentb ho K s)) o.
 
 Definition two_parked : list label := [LArrive Unary 1; LArrive Unary 1] ++ park_seq 0 ++ park_seq 1.
 
 (* two parked consumers and a Post 1: only the oldest is woken ... *)
-Example post1_wakes_oldest :
-  obs 4 (run 4 init (two_parked ++ [LEnq (RPost 1); LTurn]))
+Example post1_wakes_oldest ho :
+  obs ho 4 (run ho 4 init (two_parked ++ [LEnq (RPost 1); LTurn]))
   = Some (false, [1], 1, [PParked NOne; PParked NNone], false).
-Proof. vm_compute. reflexivity. Qed.
+Proof. destruct ho; vm_compute; reflexivity. Qed.
 
 (* ... and served; the other one keeps sleeping, nothing is left. *)
-Example post1_serves_oldest :
-  obs 4 (run 4 init (two_parked ++ [LEnq (RPost 1); LTurn; LCons 0; LCons 0; LCons 0; LTurn; LCons 0]))
+Example post1_serves_oldest ho :
+  obs ho 4 (run ho 4 init (two_parked ++ [LEnq (RPost 1); LTurn; LCons 0; LCons 0; LCons 0; LTurn; LCons 0]))
   = Some (false, [1], 0, [PDone (OMessages 1); PParked NNone], true).
-Proof. vm_compute. reflexivity. Qed.
+Proof. destruct ho; vm_compute; reflexivity. Qed.
 
 (* Post 3, both pull with limit 1: the Pull turn of consumer 0 leaves a
    non-empty backlog and notifies again, which wakes consumer 1; its Pull
    leaves one message and sets the permit for whoever comes next. *)
-Example post3_chain :
-  obs 4 (run 4 init (two_parked ++
+Example post3_chain ho :
+  obs ho 4 (run ho 4 init (two_parked ++
      [LEnq (RPost 3); LTurn; LCons 0; LCons 0; LCons 0; LTurn; LCons 0;
       LCons 1; LCons 1; LCons 1; LTurn; LCons 1]))
   = Some (true, [], 1, [PDone (OMessages 1); PDone (OMessages 1)], true).
-Proof. vm_compute. reflexivity. Qed.
+Proof. destruct ho; vm_compute; reflexivity. Qed.
 
 (* check-then-park race: the Post lands between the consumer's empty reply and
    its poll; notify_one finds no waiter and stores the permit ... *)
-Example race_permit_set :
-  obs 4 (run 4 init [LArrive Unary 1; LCons 0; LCons 0; LTurn; LCons 0; LEnq (RPost 1); LTurn])
+Example race_permit_set ho :
+  obs ho 4 (run ho 4 init [LArrive Unary 1; LCons 0; LCons 0; LTurn; LCons 0; LEnq (RPost 1); LTurn])
   = Some (true, [], 1, [PU3 0], false).
-Proof. vm_compute. reflexivity. Qed.
+Proof. destruct ho; vm_compute; reflexivity. Qed.
 
 (* ... the poll returns Ready, the consumer pulls again and is served. *)
-Example race_poll_ready :
-  obs 4 (run 4 init [LArrive Unary 1; LCons 0; LCons 0; LTurn; LCons 0; LEnq (RPost 1); LTurn;
-                     LCons 0; LCons 0; LCons 0; LTurn; LCons 0])
+Example race_poll_ready ho :
+  obs ho 4 (run ho 4 init [LArrive Unary 1; LCons 0; LCons 0; LTurn; LCons 0; LEnq (RPost 1); LTurn;
+                           LCons 0; LCons 0; LCons 0; LTurn; LCons 0])
   = Some (false, [], 0, [PDone (OMessages 1)], true).
-Proof. vm_compute. reflexivity. Qed.
+Proof. destruct ho; vm_compute; reflexivity. Qed.
 
 (* Delete with a parked stream and a parked unary Pull: both are woken. *)
 Definition two_parked_su : list label := [LArrive Stream 1; LArrive Unary 1] ++ park_seq 0 ++ park_seq 1.
 
-Example delete_wakes_all :
-  obs 4 (run 4 init (two_parked_su ++ [LEnq RDelete; LTurn]))
+Example delete_wakes_all ho :
+  obs ho 4 (run ho 4 init (two_parked_su ++ [LEnq RDelete; LTurn]))
   = Some (false, [], 0, [PParked NAll; PParked NAll], false).
-Proof. vm_compute. reflexivity. Qed.
+Proof. destruct ho; vm_compute; reflexivity. Qed.
 
 (* select! picks the deleted branch for both *)
-Example delete_notfound :
-  obs 4 (run 4 init (two_parked_su ++ [LEnq RDelete; LTurn; LDelExit 0; LDelExit 1; LExit]))
+Example delete_notfound ho :
+  obs ho 4 (run ho 4 init (two_parked_su ++ [LEnq RDelete; LTurn; LDelExit 0; LDelExit 1; LExit]))
   = Some (false, [], 0, [PDone ONotFound; PDone ONotFound], true).
-Proof. vm_compute. reflexivity. Qed.
+Proof. destruct ho; vm_compute; reflexivity. Qed.
 
 (* select! picks the messages branch for both: they pull again, the actor is
-   gone, the stream ends with NotFound and the unary Pull with an error. *)
+   gone, the stream ends with NotFound and the unary Pull with an error.  In
+   the repaired code the failed send returns through the armed guard, which
+   leaves a (useless) permit behind. *)
 Example delete_closed :
-  obs 4 (run 4 init (two_parked_su ++
+  obs false 4 (run false 4 init (two_parked_su ++
      [LEnq RDelete; LTurn; LCons 0; LCons 0; LCons 0; LCons 1; LCons 1; LExit; LCons 0; LCons 1]))
-  = Some (false, [], 0, [PDone ONotFound; PDone OError], true).
+  = Some (false, [], 0, [PDone ONotFound; PDone OError], true) /\
+  obs true 4 (run true 4 init (two_parked_su ++
+     [LEnq RDelete; LTurn; LCons 0; LCons 0; LCons 0; LCons 1; LCons 1; LExit; LCons 0; LCons 1]))
+  = Some (true, [], 0, [PDone ONotFound; PDone OError], true).
+Proof. split; vm_compute; reflexivity. Qed.
+
+(* Why C12_no_hang counts arrivals in the repaired code.  The subscription is
+   deleted (actor still there), stream consumer 0 is at U3 with a fresh signal.
+   A unary Pull arrives, waits at U1 and leaves through the deleted branch: its
+   guard sets the permit.  Consumer 0 (whose select! picks the messages branch)
+   consumes it and goes round once more: 4 own steps, same state, same
+   potential.  In the old code the newcomer leaves nothing behind and
+   consumer 0 parks. *)
+Definition fed_start : list label :=
+  [LArrive Stream 1; LCons 0; LCons 0; LTurn; LCons 0; LEnq RDelete; LTurn;
+   LCons 0; LCons 0; LCons 0; LTurn; LCons 0].
+Definition fed_round : list label :=
+  [LArrive Unary 1; LCons 1; LDelExit 1; LCons 0; LCons 0; LCons 0; LTurn; LCons 0].
+
+Example arrivals_feed_deleted :
+  exists s s', run true 4 init fed_start = Some s /\ deleted s = true /\ exited s = false /\
+               run true 4 s fed_round = Some s' /\
+               phases s = [PU3 1] /\ phases s' = [PU3 1; PDone ONotFound] /\
+               hang_bound true s 0 = 4 /\ hang_bound true s' 0 = 4 /\
+               count_own 0 fed_round = 4 /\ count_arr true fed_round = 6.
+Proof.
+  eexists. eexists. split; [vm_compute; reflexivity|]. split; [reflexivity|]. split; [reflexivity|].
+  split; [vm_compute; reflexivity|]. repeat split.
+Qed.
+
+Example arrivals_do_not_feed_old :
+  option_map phases (run false 4 init (fed_start ++ [LArrive Unary 1; LCons 1; LDelExit 1; LCons 0]))
+  = Some [PParked NNone; PDone ONotFound].
 Proof. vm_compute. reflexivity. Qed.
 
 (* ------------------------------------------------------------------ *)
@@ -2151,13 +2522,21 @@ Print Assumptions notify_wf_sig.
 Print Assumptions C06_no_lost_wakeup_exact.
 Print Assumptions C06_no_lost_wakeup.
 Print Assumptions C06_lost_wakeup_unreachable.
+Print Assumptions C06_quiescent.
+Print Assumptions C06_no_lost_wakeup_exact_old.
+Print Assumptions C06_no_lost_wakeup_old.
+Print Assumptions C06_lost_wakeup_unreachable_old.
+Print Assumptions C06_quiescent_old.
 Print Assumptions C06_refuted_cancel_owing.
 Print Assumptions C06_refuted_timeout_owing.
+Print Assumptions C06_fixed_cancel_owing.
+Print Assumptions C06_fixed_timeout_owing.
 Print Assumptions C06_cancel_parked_ok.
 Print Assumptions C06_cancel_woken_forwarded.
-Print Assumptions C06_quiescent.
 Print Assumptions C12_release.
 Print Assumptions C12_no_hang.
+Print Assumptions C12_no_hang_old.
+Print Assumptions C12_no_hang_closed.
 Print Assumptions hang_bound_le.
 Print Assumptions C12_progress.
 Print Assumptions C15_empty_rule.
